@@ -3,13 +3,15 @@ from __future__ import annotations
 
 import ast
 import itertools
+import operator
+import re
 
 from sa import minieval, pat, source
-from sa.cfg import cfg_of, guards
-from sa.classes import is_logging_stmt
+from sa.cfg import cfg_of
+from sa.classes import decorator_names, is_logging_stmt
+from sa.minieval import CannotEval
 from sa.source import AnchorMissing, dotted, is_self_attr, last_attr, local_defs, params_of, short, u, walk_body
-from sa.sym import UnknownAtom, atoms_of
-from sa.tables import Unsupported, decide
+from sa.sym import atoms_of
 
 _V = "esrally/utils/versions.py"
 _P = "esrally/utils/repo.py"
@@ -43,53 +45,6 @@ def bound_name(call):
     return None
 
 
-def unpacked_names(root, callee, n=4):
-    """[(assign, [name at tuple position 0..n-1])] for every `a, b, c, d = <callee>(...)` below root."""
-    out = []
-    for x in ast.walk(root):
-        if isinstance(x, ast.Assign) and isinstance(x.value, ast.Call) and last_attr(x.value.func) == callee and len(x.targets) == 1 and isinstance(x.targets[0], ast.Tuple) \
-                and len(x.targets[0].elts) == n and all(isinstance(t, ast.Name) for t in x.targets[0].elts):
-            out.append((x, [t.id for t in x.targets[0].elts]))
-    return out
-
-
-def returned_value(ret):
-    """expression a return statement yields: its value, seen through a temporary assigned by the statement just before it (`tmp = E; return tmp`)."""
-    v = ret.value
-    if isinstance(v, ast.Name):
-        par = source.parent(ret)
-        for f in ("body", "orelse", "finalbody"):
-            b = getattr(par, f, None)
-            if isinstance(b, list) and any(x is ret for x in b):
-                i = [k for k, x in enumerate(b) if x is ret][0]
-                prev = code_stmts(b[:i])[-1:] if i else []
-                if prev and isinstance(prev[0], ast.Assign) and len(prev[0].targets) == 1 and isinstance(prev[0].targets[0], ast.Name) and prev[0].targets[0].id == v.id:
-                    return prev[0].value
-    return v
-
-
-def ev_text(e, env):
-    """minieval.ev extended by the two other spellings of string formatting: '<fmt>' % args and '<fmt>'.format(args)."""
-    try:
-        if isinstance(e, ast.BinOp) and isinstance(e.op, ast.Mod) and isinstance(e.left, ast.Constant) and isinstance(e.left.value, str):
-            r = minieval.ev(e.right, env)
-            return e.left.value % (r if isinstance(r, tuple) else (r,))
-        if isinstance(e, ast.Call) and isinstance(e.func, ast.Attribute) and e.func.attr == "format" and isinstance(e.func.value, ast.Constant) and isinstance(e.func.value.value, str) and not e.keywords:
-            return e.func.value.value.format(*[minieval.ev(a, env) for a in e.args])
-    except (TypeError, ValueError, IndexError, KeyError) as x:
-        raise minieval.CannotEval(f"{u(e)[:60]}: {type(x).__name__}")
-    return minieval.ev(e, env)
-
-
-def is_none(n):
-    return isinstance(n, ast.Constant) and n.value is None
-
-
-def code_stmts(stmts):
-    """statements without logging."""
-    return [s for s in stmts if not is_logging_stmt(s)]
-
-
 def boolean_context_atoms(func):
     """(atom node, context statement) for every expression used for its truth value."""
     out = []
@@ -111,18 +66,859 @@ def boolean_context_atoms(func):
     return out
 
 
+# ======================================================================================================================================================
+# A small evaluator for the PURE version-matching helpers (local to this module; a candidate for sa/ if other rules need it).
+#
+# tables.decide + minieval.ev evaluate one extracted test / one straight-line decision on representative values. The matcher's helpers are small pure functions over strings,
+# ints and lists, and every realistic refactoring of them (guard clauses, loop -> comprehension / generator + max(default=), extracted helper, set instead of list, named
+# constants, extra log lines) changes their SHAPE but not their VALUE on any input. The obligations of O15.1 / O15.3 are therefore decided on values: the extracted function is
+# evaluated on representative (branch list, version) inputs and the outcome is compared with the documented one. Calls resolve to
+#   (1) the stubs the rule supplies (the two regex primitives `components` / `is_version_identifier`, git.tags) — reference semantics, recorded in a trace,
+#   (2) a whitelist of side-effect free builtins and str / list / dict / set methods,
+#   (3) functions and classes DEFINED IN THE ANALYSED MODULE, which are evaluated in turn (an extracted helper is followed, arguments bound to parameters).
+# No function of the repository is ever called. Anything outside this fragment raises CannotEval -> `chk.unknown` (shape not recognised), never a verdict.
+
+
+class _Opaque:
+    """value of an expression the evaluator does not model (a logger, a clock): may be bound and passed to logging statements, never inspected."""
+
+    def __repr__(self):
+        return "<not modelled>"
+
+
+OPAQUE = _Opaque()
+_MISSING = object()
+
+
+class _Obj:
+    """instance of a class of the analysed module."""
+
+    def __init__(self, cls):
+        self.cls = cls
+        self.fields = {}
+
+
+class _Cls:
+    def __init__(self, node):
+        self.node = node
+
+
+class _Raised(Exception):
+    """the evaluated code raises (an explicit `raise`, or a Python error that is certain because every operand is a concrete plain value)."""
+
+    def __init__(self, text, name=None):
+        super().__init__(text)
+        self.text = text
+        self.name = name or text.split(":")[0].split("(")[0].strip().split(".")[-1]  # class name of the exception
+
+
+class _Ctl(Exception):
+    pass
+
+
+class _Return(_Ctl):
+    def __init__(self, value):
+        self.value = value
+
+
+class _Break(_Ctl):
+    pass
+
+
+class _Continue(_Ctl):
+    pass
+
+
+def _plain(v, d=0):
+    """a concrete Python value whose operators / methods behave exactly as in the analysed program."""
+    if isinstance(v, (_Obj, _Cls, _Opaque, minieval.Record)):
+        return False
+    if isinstance(v, (list, tuple, set, frozenset)):
+        return d > 4 or all(_plain(x, d + 1) for x in v)
+    if isinstance(v, dict):
+        return d > 4 or all(_plain(k, d + 1) and _plain(x, d + 1) for k, x in v.items())
+    return True
+
+
+_BUILTINS = {"max": max, "min": min, "sorted": sorted, "len": len, "abs": abs, "int": int, "str": str, "float": float, "bool": bool, "list": list, "tuple": tuple, "set": set,
+             "frozenset": frozenset, "dict": dict, "any": any, "all": all, "sum": sum, "enumerate": enumerate, "zip": zip, "range": range, "reversed": reversed, "filter": filter,
+             "map": map, "next": next, "iter": iter, "round": round, "repr": repr, "divmod": divmod}
+_TYPE_NAMES = {"str": str, "int": int, "float": float, "bool": bool, "list": list, "tuple": tuple, "dict": dict, "set": set, "frozenset": frozenset}
+_METHODS = {
+    str: {"split", "rsplit", "partition", "rpartition", "strip", "lstrip", "rstrip", "startswith", "endswith", "lower", "upper", "replace", "join", "format", "isdigit", "isnumeric",
+          "isdecimal", "isalpha", "find", "rfind", "index", "rindex", "count", "removeprefix", "removesuffix", "zfill", "splitlines", "casefold", "title", "capitalize"},
+    list: {"append", "extend", "sort", "insert", "pop", "index", "count", "copy", "reverse", "remove", "clear"},
+    tuple: {"index", "count"},
+    dict: {"get", "items", "keys", "values", "setdefault", "pop", "update", "copy"},
+    set: {"add", "discard", "update", "union", "intersection", "difference", "copy", "remove", "issubset", "issuperset", "isdisjoint"},
+    frozenset: {"union", "intersection", "difference", "copy", "issubset", "issuperset", "isdisjoint"},
+}
+_CMP = {ast.Eq: operator.eq, ast.NotEq: operator.ne, ast.Lt: operator.lt, ast.LtE: operator.le, ast.Gt: operator.gt, ast.GtE: operator.ge, ast.Is: operator.is_, ast.IsNot: operator.is_not,
+        ast.In: lambda a, b: a in b, ast.NotIn: lambda a, b: a not in b}
+_BIN = {ast.Add: operator.add, ast.Sub: operator.sub, ast.Mult: operator.mul, ast.Div: operator.truediv, ast.FloorDiv: operator.floordiv, ast.Mod: operator.mod, ast.Pow: operator.pow,
+        ast.BitOr: operator.or_, ast.BitAnd: operator.and_, ast.BitXor: operator.xor}
+_OK_DECORATORS = {"property", "staticmethod", "classmethod", "functools.lru_cache", "functools.cache", "lru_cache", "cache", "functools.cached_property", "cached_property",
+                  "functools.total_ordering", "total_ordering"}
+_SCOPES = (ast.FunctionDef, ast.AsyncFunctionDef, ast.Lambda, ast.ClassDef)
+
+
+def _own_nodes(func):
+    """nodes of the function's own body (nested scopes are not entered)."""
+    todo = list(func.body)
+    while todo:
+        n = todo.pop()
+        yield n
+        if not isinstance(n, _SCOPES):
+            todo.extend(ast.iter_child_nodes(n))
+
+
+class Interp:
+    def __init__(self, mod, stubs=None, budget=60000):
+        self.mod = mod
+        self.stubs = dict(stubs or {})
+        self.budget = budget
+        self.funcs = {n.name: n for n in mod.tree.body if isinstance(n, ast.FunctionDef)}
+        self.classes = {n.name: n for n in mod.tree.body if isinstance(n, ast.ClassDef)}
+        self.consts = {st.targets[0].id: st.value for st in mod.tree.body if isinstance(st, ast.Assign) and len(st.targets) == 1 and isinstance(st.targets[0], ast.Name)}
+        self._const_busy = set()
+        self.yields = []
+        self.handling = []
+        self.depth = 0
+
+    # -- plumbing ---------------------------------------------------------------------------------------------------------------------------------
+    def tick(self):
+        self.budget -= 1
+        if self.budget < 0:
+            raise CannotEval("step budget exhausted")
+
+    _OBJECT_SAFE = (list, tuple, len, enumerate, zip, reversed, iter, next, map, filter, any, all)
+    _OBJECT_SAFE_KEYED = (sorted, max, min)
+    _OBJECT_SAFE_METHODS = {list: {"append", "extend", "insert", "pop", "copy", "reverse", "clear"}, dict: {"get", "setdefault", "pop", "update", "items", "values", "keys", "copy"}}
+
+    def object_safe(self, fn, args, kwargs):
+        """the builtin / container method does not look INTO its arguments (no ==, hash, str, ordering), so it behaves on an instance of an evaluated class as it does in Python."""
+        if any(fn is f for f in self._OBJECT_SAFE):
+            return True
+        if any(fn is f for f in self._OBJECT_SAFE_KEYED):
+            return "key" in kwargs
+        owner = getattr(fn, "__self__", None)
+        ok = self._OBJECT_SAFE_METHODS.get(type(owner))
+        if ok is not None and getattr(fn, "__name__", "") in ok:
+            return type(owner) is list or not args or _plain(args[0])
+        return False
+
+    def apply(self, fn, args, kwargs=None, what=""):
+        kwargs = kwargs or {}
+        if not getattr(fn, "_interp", False) and not all(_plain(a) or callable(a) for a in list(args) + list(kwargs.values())) and not self.object_safe(fn, args, kwargs):
+            raise CannotEval(f"{what}: a builtin applied to a value that is not modelled")
+        try:
+            return fn(*args, **kwargs)
+        except (CannotEval, _Raised, _Ctl):
+            raise
+        except RecursionError:
+            raise CannotEval(f"{what}: recursion")
+        except Exception as x:  # noqa: BLE001 - the Python error the analysed expression would raise on these concrete values
+            if all(_plain(a) or callable(a) for a in list(args) + list(kwargs.values())):
+                raise _Raised(f"{type(x).__name__}: {x}"[:160])
+            raise CannotEval(f"{what}: {type(x).__name__} on a value that is not modelled")
+
+    def truth(self, v):
+        if isinstance(v, _Obj):
+            if self.member(v.cls, "__bool__") is not None or self.member(v.cls, "__len__") is not None:
+                raise CannotEval("truth value of an object with __bool__ / __len__")
+            return True
+        if isinstance(v, (_Opaque, minieval.Record)):
+            raise CannotEval("truth value of a value that is not modelled")
+        return bool(v)
+
+    def iterate(self, v, what=""):
+        if isinstance(v, (_Obj, _Cls, _Opaque, minieval.Record)):
+            raise CannotEval(f"{what}: iteration over a value that is not modelled")
+        return self.apply(iter, [v], what=what)
+
+    def member(self, cls, name, seen=()):
+        for st in cls.body:
+            if isinstance(st, (ast.FunctionDef, ast.AsyncFunctionDef)) and st.name == name:
+                return st
+            if isinstance(st, ast.Assign) and any(isinstance(t, ast.Name) and t.id == name for t in st.targets):
+                return st
+        for b in cls.bases:
+            bn = dotted(b)
+            if bn in self.classes and bn not in seen:
+                m = self.member(self.classes[bn], name, seen + (bn,))
+                if m is not None:
+                    return m
+        return None
+
+    def closed_class(self, cls, seen=()):
+        """every base is a class of this module (or object): the member table is complete."""
+        for b in cls.bases:
+            bn = dotted(b)
+            if bn == "object":
+                continue
+            if bn not in self.classes or bn in seen or not self.closed_class(self.classes[bn], seen + (bn,)):
+                return False
+        return True
+
+    # -- calls --------------------------------------------------------------------------------------------------------------------------------------
+    def bind(self, func, args, kwargs, bound=_MISSING, outer=None):
+        a = func.args
+        names = [x.arg for x in a.posonlyargs + a.args]
+        pos = ([] if bound is _MISSING else [bound]) + list(args)
+        env = dict(outer or {})
+        given = set()
+        if len(pos) > len(names):
+            if a.vararg is None:
+                raise _Raised(f"TypeError: {func.name}() takes {len(names)} positional arguments but {len(pos)} were given")
+            env[a.vararg.arg] = tuple(pos[len(names):])
+            pos = pos[: len(names)]
+        elif a.vararg is not None:
+            env[a.vararg.arg] = ()
+        for n, v in zip(names, pos):
+            env[n] = v
+            given.add(n)
+        kw = dict(kwargs)
+        first_default = len(names) - len(a.defaults)
+        for i, n in enumerate(names):
+            if n in given:
+                if n in kw:
+                    raise _Raised(f"TypeError: {func.name}() got multiple values for argument {n!r}")
+                continue
+            if n in kw:
+                env[n] = kw.pop(n)
+            elif i >= first_default:
+                env[n] = self.ev(a.defaults[i - first_default], dict(outer or {}))
+            else:
+                raise _Raised(f"TypeError: {func.name}() missing required argument {n!r}")
+        for x, d in zip(a.kwonlyargs, a.kw_defaults):
+            if x.arg in kw:
+                env[x.arg] = kw.pop(x.arg)
+            elif d is not None:
+                env[x.arg] = self.ev(d, dict(outer or {}))
+            else:
+                raise _Raised(f"TypeError: {func.name}() missing keyword-only argument {x.arg!r}")
+        if kw:
+            if a.kwarg is None:
+                raise _Raised(f"TypeError: {func.name}() got an unexpected keyword argument {sorted(kw)[0]!r}")
+            env[a.kwarg.arg] = kw
+        elif a.kwarg is not None:
+            env[a.kwarg.arg] = {}
+        return env, names
+
+    def call_function(self, func, args, kwargs=None, bound=_MISSING, outer=None):
+        kwargs = kwargs or {}
+        if isinstance(func, ast.AsyncFunctionDef):
+            raise CannotEval(f"{func.name}: coroutine")
+        bad = [d for d in decorator_names(func) if d not in _OK_DECORATORS]
+        if bad:
+            raise CannotEval(f"{func.name}: decorator {bad[0]}")
+        self.depth += 1
+        try:
+            if self.depth > 14:
+                raise CannotEval(f"{func.name}: call depth")
+            env, _ = self.bind(func, args, kwargs, bound, outer)
+            gen = any(isinstance(n, (ast.Yield, ast.YieldFrom)) for n in _own_nodes(func))
+            if gen:
+                self.yields.append([])
+            try:
+                try:
+                    self.run(func.body, env)
+                    rv = None
+                except _Return as r:
+                    rv = r.value
+                except _Raised as r:
+                    if gen:
+                        raise CannotEval(f"the generator {func.name} is evaluated eagerly and raises ({r.text[:60]}): whether its consumer gets that far is not modelled")
+                    raise
+                if gen:
+                    rv = list(self.yields[-1])
+            finally:
+                if gen:
+                    self.yields.pop()
+            return rv
+        finally:
+            self.depth -= 1
+
+    def closure(self, func, bound=_MISSING, outer=None):
+        def f(*a, **k):
+            return self.call_function(func, list(a), k, bound, outer)
+
+        f._interp = True  # type: ignore[attr-defined]
+        return f
+
+    def call_stub(self, name, args, kwargs):
+        f = self.funcs.get(name)
+        if f is not None:
+            # arguments are bound to the parameters of the REAL function (keyword or positional, defaults applied) and handed to the stub in declaration order
+            env, names = self.bind(f, args, kwargs)
+            return self.stubs[name](*[env[n] for n in names])
+        return self.stubs[name](*args, **kwargs)
+
+    def instantiate(self, cls, args, kwargs=None):
+        if not self.closed_class(cls):
+            raise CannotEval(f"class {cls.name} has a base outside the module")
+        o = _Obj(cls)
+        init = self.member(cls, "__init__")
+        if isinstance(init, ast.FunctionDef):
+            self.call_function(init, args, kwargs or {}, bound=o)
+        elif args or kwargs:
+            raise CannotEval(f"{cls.name}: constructor arguments without __init__")
+        return o
+
+    def getattr_(self, recv, attr):
+        if isinstance(recv, _Obj):
+            if attr in recv.fields:
+                v = recv.fields[attr]
+                if v is OPAQUE:
+                    raise CannotEval(f"attribute {attr} is not modelled")
+                return v
+            m = self.member(recv.cls, attr)
+            if isinstance(m, ast.FunctionDef):
+                decs = decorator_names(m)
+                if any(d.split(".")[-1] in ("property", "cached_property") for d in decs):
+                    return self.call_function(m, [], {}, bound=recv)
+                if "staticmethod" in decs:
+                    return self.closure(m)
+                if "classmethod" in decs:
+                    return self.closure(m, bound=_Cls(recv.cls))
+                return self.closure(m, bound=recv)
+            if isinstance(m, ast.Assign):
+                return self.ev(m.value, {})
+            raise CannotEval(f"attribute {attr} of a {recv.cls.name} object")
+        if isinstance(recv, _Cls):
+            m = self.member(recv.node, attr)
+            if isinstance(m, ast.FunctionDef):
+                decs = decorator_names(m)
+                if "classmethod" in decs:
+                    return self.closure(m, bound=recv)
+                return self.closure(m)
+            if isinstance(m, ast.Assign):
+                return self.ev(m.value, {})
+            raise CannotEval(f"attribute {attr} of class {recv.node.name}")
+        if isinstance(recv, minieval.Record):
+            if attr in recv.fields:
+                return recv.fields[attr]
+            raise CannotEval(f"attribute {attr}")
+        t = type(recv)
+        if t in _METHODS and attr in _METHODS[t]:
+            return getattr(recv, attr)
+        raise CannotEval(f"attribute {attr} of a {t.__name__}")
+
+    def call_args(self, e, env):
+        args = []
+        for a in e.args:
+            if isinstance(a, ast.Starred):
+                args.extend(self.iterate(self.ev(a.value, env), "*args"))
+            else:
+                args.append(self.ev(a, env))
+        kwargs = {}
+        for k in e.keywords:
+            if k.arg is None:
+                v = self.ev(k.value, env)
+                if not isinstance(v, dict):
+                    raise CannotEval("** of a non-dict")
+                kwargs.update(v)
+            else:
+                kwargs[k.arg] = self.ev(k.value, env)
+        return args, kwargs
+
+    def call(self, e, env):
+        f = e.func
+        what = short(e, 60)
+        if isinstance(f, ast.Name) and f.id == "isinstance" and "isinstance" not in env and len(e.args) == 2:
+            v = self.ev(e.args[0], env)
+            ts = e.args[1].elts if isinstance(e.args[1], ast.Tuple) else [e.args[1]]
+            res = False
+            for t in ts:
+                tn = dotted(t)
+                if tn in _TYPE_NAMES:
+                    res = res or (not isinstance(v, (_Obj, _Cls)) and isinstance(v, _TYPE_NAMES[tn]))
+                elif tn in self.classes:
+                    res = res or (isinstance(v, _Obj) and v.cls is self.classes[tn])
+                    if isinstance(v, _Obj) and v.cls is not self.classes[tn] and v.cls.bases:
+                        raise CannotEval(what)
+                else:
+                    raise CannotEval(what)
+            return res
+        if isinstance(f, ast.Name) and f.id in ("getattr", "hasattr") and f.id not in env and 2 <= len(e.args) <= 3 and not e.keywords:
+            obj, name = self.ev(e.args[0], env), self.ev(e.args[1], env)
+            if not isinstance(name, str) or not isinstance(obj, _Obj):
+                raise CannotEval(what)
+            if name in obj.fields or self.member(obj.cls, name) is not None:
+                return True if f.id == "hasattr" else self.getattr_(obj, name)
+            if not self.closed_class(obj.cls) or self.member(obj.cls, "__getattr__") is not None:
+                raise CannotEval(what)
+            if f.id == "hasattr":
+                return False
+            if len(e.args) == 3:
+                return self.ev(e.args[2], env)
+            raise _Raised(f"AttributeError: {obj.cls.name} object has no attribute {name!r}", "AttributeError")
+        if isinstance(f, ast.Attribute):
+            try:
+                recv = self.ev(f.value, env)
+            except CannotEval:
+                # the receiver is not a value of the evaluated program (an imported module, a logger): the callee is known by its name only
+                if f.attr in self.stubs:
+                    args, kwargs = self.call_args(e, env)
+                    return self.call_stub(f.attr, args, kwargs)
+                raise CannotEval(f"call {what}")
+            callee = self.getattr_(recv, f.attr)
+            args, kwargs = self.call_args(e, env)
+            return self.apply(callee, args, kwargs, what)
+        if isinstance(f, ast.Name) and f.id not in env and f.id in self.stubs:
+            args, kwargs = self.call_args(e, env)
+            return self.call_stub(f.id, args, kwargs)
+        callee = self.ev(f, env)
+        args, kwargs = self.call_args(e, env)
+        if isinstance(callee, _Cls):
+            return self.instantiate(callee.node, args, kwargs)
+        if not callable(callee):
+            raise CannotEval(f"call {what}")
+        return self.apply(callee, args, kwargs, what)
+
+    # -- expressions --------------------------------------------------------------------------------------------------------------------------------
+    def ev(self, e, env):
+        self.tick()
+        if isinstance(e, ast.Constant):
+            return e.value
+        if isinstance(e, ast.Name):
+            if e.id in env:
+                v = env[e.id]
+                if v is OPAQUE:
+                    raise CannotEval(f"the value of {e.id} is not modelled")
+                return v
+            if e.id in self.stubs:
+                def stub(*a, **k):
+                    return self.call_stub(e.id, list(a), k)
+
+                stub._interp = True  # type: ignore[attr-defined]
+                return stub
+            if e.id in self.funcs:
+                return self.closure(self.funcs[e.id])
+            if e.id in self.classes:
+                return _Cls(self.classes[e.id])
+            if e.id in self.consts:
+                if e.id in self._const_busy:
+                    raise CannotEval(f"recursive constant {e.id}")
+                self._const_busy.add(e.id)
+                try:
+                    return self.ev(self.consts[e.id], {})
+                finally:
+                    self._const_busy.discard(e.id)
+            if e.id in _BUILTINS:
+                return _BUILTINS[e.id]
+            raise CannotEval(f"unbound name {e.id}")
+        if isinstance(e, ast.Attribute):
+            return self.getattr_(self.ev(e.value, env), e.attr)
+        if isinstance(e, ast.Call):
+            return self.call(e, env)
+        if isinstance(e, ast.Subscript):
+            v = self.ev(e.value, env)
+            if isinstance(e.slice, ast.Slice):
+                k = slice(*[self.ev(x, env) if x is not None else None for x in (e.slice.lower, e.slice.upper, e.slice.step)])
+            else:
+                k = self.ev(e.slice, env)
+            if not (isinstance(v, (list, tuple, dict, str)) and (isinstance(k, slice) or _plain(k))):
+                raise CannotEval(f"subscript of {short(e.value, 40)}")
+            try:
+                return v[k]
+            except (KeyError, IndexError, TypeError) as x:
+                raise _Raised(f"{type(x).__name__}: {x}"[:160], type(x).__name__)
+        if isinstance(e, ast.Compare):
+            left = self.ev(e.left, env)
+            for op, c in zip(e.ops, e.comparators):
+                right = self.ev(c, env)
+                if not isinstance(op, (ast.Is, ast.IsNot)) and not (_plain(left) and _plain(right)):
+                    raise CannotEval(f"comparison {short(e, 60)} on a value that is not modelled")
+                if not self.apply(_CMP[type(op)], [left, right], what=short(e, 60)):
+                    return False
+                left = right
+            return True
+        if isinstance(e, ast.BoolOp):
+            r = None
+            for v in e.values:
+                r = self.ev(v, env)
+                if isinstance(e.op, ast.And) != self.truth(r):
+                    return r
+            return r
+        if isinstance(e, ast.UnaryOp):
+            v = self.ev(e.operand, env)
+            if isinstance(e.op, ast.Not):
+                return not self.truth(v)
+            return self.apply({ast.USub: operator.neg, ast.UAdd: operator.pos, ast.Invert: operator.invert}[type(e.op)], [v], what=short(e, 60))
+        if isinstance(e, ast.BinOp) and type(e.op) in _BIN:
+            a, b = self.ev(e.left, env), self.ev(e.right, env)
+            if not (_plain(a) and _plain(b)):
+                raise CannotEval(f"{short(e, 60)}: operand is not modelled")
+            return self.apply(_BIN[type(e.op)], [a, b], what=short(e, 60))
+        if isinstance(e, ast.IfExp):
+            return self.ev(e.body, env) if self.truth(self.ev(e.test, env)) else self.ev(e.orelse, env)
+        if isinstance(e, (ast.List, ast.Tuple, ast.Set)):
+            vals = []
+            for x in e.elts:
+                if isinstance(x, ast.Starred):
+                    vals.extend(self.iterate(self.ev(x.value, env), "*"))
+                else:
+                    vals.append(self.ev(x, env))
+            return vals if isinstance(e, ast.List) else (tuple(vals) if isinstance(e, ast.Tuple) else self.apply(set, [vals], what="set display"))
+        if isinstance(e, ast.Dict):
+            out = {}
+            for k, v in zip(e.keys, e.values):
+                if k is None:
+                    d = self.ev(v, env)
+                    if not isinstance(d, dict):
+                        raise CannotEval("** of a non-dict")
+                    out.update(d)
+                else:
+                    self.apply(out.__setitem__, [self.ev(k, env), self.ev(v, env)], what="dict display")
+            return out
+        if isinstance(e, ast.JoinedStr):
+            out = []
+            for v in e.values:
+                if isinstance(v, ast.Constant):
+                    out.append(str(v.value))
+                else:
+                    val = self.ev(v.value, env)
+                    spec = self.ev(v.format_spec, env) if v.format_spec is not None else ""
+                    if not _plain(val):
+                        raise CannotEval(f"{short(e, 60)}: formatted value is not modelled")
+                    val = repr(val) if v.conversion == 114 else (str(val) if v.conversion == 115 else (ascii(val) if v.conversion == 97 else val))
+                    out.append(self.apply(format, [val, spec], what=short(e, 60)))
+            return "".join(out)
+        if isinstance(e, ast.NamedExpr):
+            v = self.ev(e.value, env)
+            env[e.target.id] = v
+            return v
+        if isinstance(e, ast.Lambda):
+            return self.closure(ast.copy_location(ast.FunctionDef(name="<lambda>", args=e.args, body=[ast.copy_location(ast.Return(value=e.body), e)], decorator_list=[], returns=None), e),
+                                outer=env)
+        if isinstance(e, (ast.ListComp, ast.SetComp, ast.GeneratorExp, ast.DictComp)):
+            out = []
+
+            def rec(i, env_):
+                if i == len(e.generators):
+                    out.append((self.ev(e.key, env_), self.ev(e.value, env_)) if isinstance(e, ast.DictComp) else self.ev(e.elt, env_))
+                    return
+                g = e.generators[i]
+                if g.is_async:
+                    raise CannotEval("async comprehension")
+                for v in self.iterate(self.ev(g.iter, env_), short(g.iter, 40)):
+                    self.tick()
+                    env2 = dict(env_)
+                    self.assign(g.target, v, env2)
+                    if all(self.truth(self.ev(c, env2)) for c in g.ifs):
+                        rec(i + 1, env2)
+
+            try:
+                rec(0, dict(env))
+            except _Raised as r:
+                if isinstance(e, ast.GeneratorExp):
+                    raise CannotEval(f"a generator expression that is evaluated eagerly raises ({r.text[:60]}): whether its consumer gets that far is not modelled")
+                raise
+            if isinstance(e, ast.ListComp):
+                return out
+            if isinstance(e, ast.GeneratorExp):
+                return iter(out)  # evaluated eagerly: the analysed helpers are pure, so laziness is not observable
+            return self.apply(set if isinstance(e, ast.SetComp) else dict, [out], what="comprehension")
+        if isinstance(e, ast.Yield):
+            if not self.yields:
+                raise CannotEval("yield outside a generator")
+            self.yields[-1].append(self.ev(e.value, env) if e.value is not None else None)
+            return None
+        if isinstance(e, ast.YieldFrom):
+            if not self.yields:
+                raise CannotEval("yield outside a generator")
+            self.yields[-1].extend(self.iterate(self.ev(e.value, env), "yield from"))
+            return None
+        raise CannotEval(f"{type(e).__name__}: {short(e, 60)}")
+
+    # -- statements ---------------------------------------------------------------------------------------------------------------------------------
+    def assign(self, t, v, env):
+        if isinstance(t, ast.Name):
+            env[t.id] = v
+        elif isinstance(t, (ast.Tuple, ast.List)):
+            if v is OPAQUE:
+                for x in t.elts:
+                    self.assign(x.value if isinstance(x, ast.Starred) else x, OPAQUE, env)
+                return
+            vals = list(self.iterate(v, "unpacking"))
+            star = [i for i, x in enumerate(t.elts) if isinstance(x, ast.Starred)]
+            if star:
+                i, after = star[0], len(t.elts) - star[0] - 1
+                if len(vals) < len(t.elts) - 1:
+                    raise _Raised("ValueError: not enough values to unpack")
+                vals = vals[:i] + [vals[i: len(vals) - after]] + vals[len(vals) - after:]
+            if len(vals) != len(t.elts):
+                raise _Raised(f"ValueError: cannot unpack {len(vals)} value(s) into {len(t.elts)} target(s)")
+            for x, y in zip(t.elts, vals):
+                self.assign(x.value if isinstance(x, ast.Starred) else x, y, env)
+        elif isinstance(t, ast.Attribute):
+            base = self.ev(t.value, env)
+            if not isinstance(base, _Obj):
+                raise CannotEval(f"assignment to {short(t, 40)}")
+            base.fields[t.attr] = v
+        elif isinstance(t, ast.Subscript):
+            base = self.ev(t.value, env)
+            if v is OPAQUE or not isinstance(base, (list, dict)) or isinstance(t.slice, ast.Slice):
+                raise CannotEval(f"assignment to {short(t, 40)}")
+            self.apply(operator.setitem, [base, self.ev(t.slice, env), v], what=short(t, 40))
+        else:
+            raise CannotEval(f"assignment target {type(t).__name__}")
+
+    def handler_for(self, try_, r):
+        """the handler of this try statement that catches the raised exception (None: it propagates); CannotEval when the class hierarchy needed to decide is not visible."""
+        import builtins
+
+        def builtin_exc(nm):
+            c = getattr(builtins, nm, None)
+            return c if isinstance(c, type) and issubclass(c, BaseException) else None
+
+        def bases_of(nm, seen=()):
+            """names of the (transitive) bases of a module-level exception class, None if the chain leaves the module for a non-builtin class."""
+            c = self.classes.get(nm)
+            if c is None:
+                return None
+            out = []
+            for b in c.bases:
+                bn = last_attr(b)
+                out.append(bn)
+                if builtin_exc(bn) is None:
+                    if bn in seen:
+                        return None
+                    more = bases_of(bn, seen + (nm,))
+                    if more is None:
+                        return None
+                    out += more
+            return out
+
+        for h in try_.handlers:
+            if h.type is None:
+                return h
+            for t in (h.type.elts if isinstance(h.type, ast.Tuple) else [h.type]):
+                tn = last_attr(t)
+                if tn in ("Exception", "BaseException") or tn == r.name:
+                    return h
+                rb, tb = builtin_exc(r.name), builtin_exc(tn or "")
+                if rb is not None and tb is not None:
+                    if issubclass(rb, tb):
+                        return h
+                elif rb is not None:
+                    continue  # a class of the program cannot be a base of a builtin exception
+                else:
+                    chain = bases_of(r.name)
+                    if chain is None:
+                        raise CannotEval(f"whether `except {u(t)}` catches {r.name} is not visible in the module")
+                    if tn in chain or (tb is not None and any(builtin_exc(b) is not None and issubclass(builtin_exc(b), tb) for b in chain)):
+                        return h
+        return None
+
+    @staticmethod
+    def root_name(t):
+        while isinstance(t, (ast.Attribute, ast.Subscript)):
+            t = t.value
+        return t.id if isinstance(t, ast.Name) else None
+
+    def touches_tracked(self, e, env):
+        """the expression mentions a local bound to a mutable value of the evaluated program (an un-modelled call could change it)."""
+        return any(isinstance(n, ast.Name) and isinstance(env.get(n.id), (list, dict, set, _Obj)) for n in ast.walk(e))
+
+    def run(self, stmts, env):
+        for s in stmts:
+            self.tick()
+            if isinstance(s, ast.Expr):
+                if isinstance(s.value, ast.Constant) or is_logging_stmt(s):
+                    continue
+                try:
+                    self.ev(s.value, env)
+                except CannotEval:
+                    # a call the evaluator does not model (console output, a metrics counter): irrelevant unless it is handed a mutable value of the evaluated program
+                    if isinstance(s.value, (ast.Yield, ast.YieldFrom, ast.NamedExpr)) or self.touches_tracked(s.value, env):
+                        raise
+            elif isinstance(s, (ast.Assign, ast.AnnAssign)):
+                if isinstance(s, ast.AnnAssign) and s.value is None:
+                    continue
+                targets = s.targets if isinstance(s, ast.Assign) else [s.target]
+                if all(isinstance(t, (ast.Attribute, ast.Subscript)) and self.root_name(t) not in env for t in targets):
+                    continue  # module-level state (a statistics counter): not part of the evaluated value flow
+                try:
+                    v = self.ev(s.value, env)
+                except CannotEval:
+                    if self.touches_tracked(s.value, env) or any(isinstance(n, (ast.NamedExpr, ast.Yield, ast.YieldFrom)) for n in ast.walk(s.value)):
+                        raise
+                    v = OPAQUE
+                for t in targets:
+                    self.assign(t, v, env)
+            elif isinstance(s, ast.AugAssign):
+                if self.root_name(s.target) not in env:
+                    if isinstance(s.target, ast.Name):
+                        raise CannotEval(f"augmented assignment to unbound {s.target.id}")
+                    continue
+                load = ast.parse(u(s.target), mode="eval").body
+                cur = self.ev(load, env)
+                val = self.ev(s.value, env)
+                if type(s.op) not in _BIN or not (_plain(cur) and _plain(val)):
+                    raise CannotEval(short(s, 60))
+                if isinstance(cur, list) and isinstance(s.op, ast.Add):
+                    self.apply(cur.extend, [val], what=short(s, 60))  # in place, as Python does
+                else:
+                    self.assign(s.target, self.apply(_BIN[type(s.op)], [cur, val], what=short(s, 60)), env)
+            elif isinstance(s, ast.If):
+                self.run(s.body if self.truth(self.ev(s.test, env)) else s.orelse, env)
+            elif isinstance(s, ast.For):
+                broke = False
+                for v in self.iterate(self.ev(s.iter, env), short(s.iter, 40)):
+                    self.tick()
+                    self.assign(s.target, v, env)
+                    try:
+                        self.run(s.body, env)
+                    except _Break:
+                        broke = True
+                        break
+                    except _Continue:
+                        continue
+                if not broke:
+                    self.run(s.orelse, env)
+            elif isinstance(s, ast.While):
+                broke = False
+                while self.truth(self.ev(s.test, env)):
+                    self.tick()
+                    try:
+                        self.run(s.body, env)
+                    except _Break:
+                        broke = True
+                        break
+                    except _Continue:
+                        continue
+                if not broke:
+                    self.run(s.orelse, env)
+            elif isinstance(s, ast.Return):
+                raise _Return(self.ev(s.value, env) if s.value is not None else None)
+            elif isinstance(s, ast.Raise):
+                if s.exc is None:
+                    if not self.handling:
+                        raise CannotEval("bare raise outside a handler")
+                    raise self.handling[-1]
+                raise _Raised(short(s.exc, 120), last_attr(s.exc.func if isinstance(s.exc, ast.Call) else s.exc))
+            elif isinstance(s, ast.Break):
+                raise _Break()
+            elif isinstance(s, ast.Continue):
+                raise _Continue()
+            elif isinstance(s, (ast.Pass, ast.Import, ast.ImportFrom, ast.Global, ast.Nonlocal)):
+                continue  # (a name declared global is written like a local here: module state is not part of the evaluated value flow)
+            elif isinstance(s, ast.Assert):
+                if not self.truth(self.ev(s.test, env)):
+                    raise _Raised(f"AssertionError: {short(s.test, 80)}")
+            elif isinstance(s, ast.FunctionDef):
+                env[s.name] = self.closure(s, outer=env)
+            elif isinstance(s, ast.Try):
+                try:
+                    try:
+                        self.run(s.body, env)
+                    except _Raised as r:
+                        h = self.handler_for(s, r)
+                        if h is None:
+                            raise
+                        if h.name:
+                            env[h.name] = OPAQUE
+                        self.handling.append(r)
+                        try:
+                            self.run(h.body, env)
+                        finally:
+                            self.handling.pop()
+                    else:
+                        self.run(s.orelse, env)
+                finally:
+                    self.run(s.finalbody, env)
+            else:
+                raise CannotEval(f"statement {type(s).__name__} at line {getattr(s, 'lineno', '?')}")
+
+
+class Ref:
+    """Reference semantics of the two regex primitives, the only functions of versions.py that are stubbed: strict MAJOR.MINOR.PATCH[-SUFFIX], lenient
+    MAJOR[.MINOR[.PATCH[-SUFFIX]]] (a part only if the part before it is present). What the repository's own pattern accepts is decided separately (branch-name table below)."""
+    STRICT = re.compile(r"^(\d+)\.(\d+)\.(\d+)(?:-(.+))?$")
+    LENIENT = re.compile(r"^(\d+)(?:\.(\d+)(?:\.(\d+)(?:-(.+))?)?)?$")
+
+    def __init__(self):
+        self.tokens = {}  # opaque candidate name -> component tuple (for combinations no real branch name can express)
+        self.calls = []
+
+    def is_version_identifier(self, text, strict=True):
+        self.calls.append(("is_version_identifier", text, strict))
+        if isinstance(text, str) and text in self.tokens:
+            return True
+        return isinstance(text, str) and (self.STRICT if strict else self.LENIENT).match(text) is not None
+
+    def components(self, version, strict=True):
+        self.calls.append(("components", version, strict))
+        if isinstance(version, str) and version in self.tokens:
+            return self.tokens[version]
+        if not isinstance(version, str):
+            raise _Raised(f"TypeError: components({version!r})", "TypeError")
+        m = (self.STRICT if strict else self.LENIENT).match(version)
+        if m is None:
+            raise _Raised(f"InvalidSyntax: version string {version!r} does not conform to the {'strict' if strict else 'lenient'} pattern", "InvalidSyntax")
+        g = m.groups()
+        return int(g[0]), (int(g[1]) if g[1] is not None else None), (int(g[2]) if g[2] is not None else None), g[3]
+
+
+def attempt(thunk):
+    """('value', v) | ('raise', text) | ('unknown', reason) — the three outcomes of evaluating extracted code on one representative input."""
+    try:
+        v = thunk()
+    except _Raised as r:
+        return "raise", r.text
+    except CannotEval as e:
+        return "unknown", str(e)
+    except _Ctl as e:
+        return "unknown", f"stray {type(e).__name__}"
+    except RecursionError:
+        return "unknown", "recursion"
+    if isinstance(v, (map, filter, zip, enumerate, reversed)) or type(v).__name__.endswith("iterator"):
+        v = list(v)
+    if not _plain(v):
+        return "unknown", "the result is not a plain value"
+    return "value", v
+
+
+def table(chk, rule, group, cases, node, evaluate, key=None, why=""):
+    """One obligation per case: `evaluate(*inputs)` on the extracted code must yield the documented value. A case that cannot be evaluated makes the GROUP `not recognised`
+    (chk.unknown, once) — never a falsified obligation; an evaluated case is falsified only when the code yields something else (or raises)."""
+    for label, inputs, want in cases:
+        kind, got = attempt(lambda: evaluate(*inputs))
+        if kind == "unknown":
+            chk.unknown(rule, f"{group}: the code cannot be evaluated for {label} ({got})", node)
+            return False
+        ok = kind == "value" and got == want and type(got) is type(want)
+        chk.ob(rule, f"{group}: {label}", ok, node, f"code: {got!r}" + ("" if kind == "value" else " (raised)") + f"; documented: {want!r}" + ("" if ok or not why else f" — {why}"),
+               key=(key(label) if callable(key) else key) or f"{source.module_of(node).relpath}:{source.qualname(node)}:{group}:{label}")
+    return True
+
+
 def run(chk):
     repo = chk.repo
     ver, rep, git = repo.module(_V), repo.module(_P), repo.module(_G)
     chk.use(ver, rep, git)
     chk.explanation = (
-        "Decides the matcher's structure: the variants list is built most-specific first with the right formats; the exact test precedes the nearest-prior-minor fallback; "
-        "no version component (int or None, 0 meaningful) is ever tested by truthiness; the eligibility predicate of the bounded-minor search as a decision table over "
-        "{major eq/ne} x {minor None/0/less/equal/greater} x {patch set?} x {suffix set?}; nearest = max of the eligible; master only under strictly-greater major / serverless / "
-        "empty version; repository fallback order remote < local < v-tag < raise; the checked-out ref is the matcher's result and checkout errors are never swallowed; "
-        "remote ref names lose only their remote prefix."
+        "Decides the matcher on VALUES: the extracted functions of versions.py (VersionVariants, best_match, latest_bounded_minor, _latest_major, variants_of) are evaluated by a "
+        "small local evaluator (no repository code is run; only the two regex primitives are replaced by reference stubs, helpers defined in the module are followed) on "
+        "representative (branch list, version) inputs and compared with the documented outcome: variants most-specific first with formats M.m.p-s / M.m.p / M.m / M; exact "
+        "match before the nearest-prior-minor fallback, which applies at the minor step only; eligibility of the bounded-minor search as a decision table over {major lower/"
+        "same/higher} x {minor None/0/less/equal/greater} x {patch set?} x {suffix set?}; nearest = max of the eligible; master only under strictly-greater major (every "
+        "versioned branch counted, numerically) with a master branch present / serverless / empty version; otherwise None. No version component is tested by truthiness. "
+        "Structurally: repository fallback order remote < local < v-tag < raise; the checked-out ref is the matcher's result and checkout errors are never swallowed; remote "
+        "ref names lose only their remote prefix (on values)."
     )
     chk.not_decided = "git behaviour, contents of the repositories."
+
+    ref = Ref()
+    iv = Interp(ver, stubs={"components": ref.components, "is_version_identifier": ref.is_version_identifier})
+
+    def fresh():
+        iv.budget = 60000
+        iv.depth = 0
+        iv.yields = []
+        del ref.calls[:]
 
     # ---- O15.1 precedence order -------------------------------------------------------------------------------------------------------
     chk.rule("O15.1", "variants are built most-specific first (suffix, patch, minor, major) with formats M.m.p-s / M.m.p / M.m / M; in the matcher the exact test precedes the "
@@ -133,116 +929,73 @@ def run(chk):
     init = ver.methods(VV).get("__init__")
     if av is None or init is None:
         raise AnchorMissing("VersionVariants.all_versions / __init__")
-    order = []
-    for n in walk_body(av):
-        if isinstance(n, ast.Tuple) and len(n.elts) == 2 and is_self_attr(n.elts[0]) and isinstance(n.elts[1], ast.Constant):
-            order.append((n.lineno, n.col_offset, n.elts[0].attr, n.elts[1].value, n))
-    order.sort()
-    seq = [o[2] for o in order]
-    ok = seq == ["with_suffix", "with_patch", "with_minor", "with_major"] and all(o[2] == o[3] for o in order)
-    chk.ob("O15.1", "variants order: suffix, patch, minor, major", ok, av, f"order: {seq}, labels: {[o[3] for o in order]}")
-    if order:
-        sfx = order[0][4]
-        # the suffix entry is conditional on a suffix being present (guard fact `self.suffix`, whichever arm / polarity), the others unconditional;
-        # when the condition is a conditional expression its other arm contributes nothing
-        ok = pat.guarded(sfx, "self.suffix") is not None
-        cond = [a for a in source.ancestors(sfx) if isinstance(a, ast.IfExp)]
-        if ok and cond:
-            other = cond[0].orelse if any(x is sfx for x in ast.walk(cond[0].body)) else cond[0].body
-            ok = isinstance(other, (ast.List, ast.Tuple)) and not other.elts
-        chk.ob("O15.1", "suffix variant only when the version has a suffix", ok, sfx, "")
-    rets = [n for n in walk_body(av) if isinstance(n, ast.Return)]
-    ok = len(rets) == 1 and not any(isinstance(c, ast.Call) and dotted(c.func) in ("sorted", "reversed", "set") or (isinstance(c, ast.Call) and last_attr(c.func) in ("sort", "reverse")) for c in ast.walk(av))
-    chk.ob("O15.1", "variants list not re-ordered", ok, av, "")
-    fm = {"with_major": ["major"], "with_minor": ["major", "minor"], "with_patch": ["major", "minor", "patch"], "with_suffix": ["major", "minor", "patch", "suffix"]}
-    for n in walk_body(init):
-        if isinstance(n, ast.Assign) and is_self_attr(n.targets[0]) and n.targets[0].attr in fm:
-            v = n.value
-            cond_ok = True
-            if isinstance(v, ast.IfExp):
-                # the formatted arm is the one taken when a suffix is present (decided from its guard facts, not from the arm position)
-                v = v.body if isinstance(v.body, ast.JoinedStr) else v.orelse
-                cond_ok = pat.guarded(v, "self.suffix", "self.suffix is not None", stop=n) is not None
-            ok = False
-            if isinstance(v, ast.JoinedStr) and cond_ok:
-                parts = []
-                seps = []
-                for p in v.values:
-                    if isinstance(p, ast.FormattedValue):
-                        e = p.value
-                        if isinstance(e, ast.Call) and dotted(e.func) == "int" and len(e.args) == 1:
-                            e = e.args[0]
-                        parts.append(e.attr if is_self_attr(e) else "?")
-                    elif isinstance(p, ast.Constant):
-                        seps.append(p.value)
-                want_seps = {"with_major": [], "with_minor": ["."], "with_patch": [".", "."], "with_suffix": [".", ".", "-"]}[n.targets[0].attr]
-                ok = parts == fm[n.targets[0].attr] and seps == want_seps
-            chk.ob("O15.1", f"{n.targets[0].attr} format", ok, n, short(n.value, 90))
+
+    def variant_values(version):
+        """the variants VersionVariants(version).all_versions enumerates, in its order (first component of every entry: the entry is (variant, kind))."""
+        fresh()
+        entries = list(iv.iterate(iv.getattr_(iv.instantiate(VV, [version]), "all_versions"), "all_versions"))
+        out = []
+        for x in entries:
+            if not (isinstance(x, (tuple, list)) and len(x) == 2):
+                raise CannotEval("an entry of all_versions is not a (variant, kind) pair")
+            out.append(x[0])
+        return out
+
+    def prefix_chain(vs):
+        """most specific first: every later variant is a proper prefix of the one before it."""
+        return all(isinstance(v, str) for v in vs) and all(a != b and a.startswith(b) for a, b in zip(vs, vs[1:]))
+
+    got = {}
+    for v_ in ("5.0.0-SNAPSHOT", "7.10.2", "10.9.12-rc1"):
+        got[v_] = attempt(lambda: variant_values(v_))
+    undecided = [f"{k}: {r[1]}" for k, r in got.items() if r[0] == "unknown"]
+    if undecided:
+        chk.unknown("O15.1", f"VersionVariants cannot be evaluated ({undecided[0]})", av)
+    else:
+        vals = {k: (r[1] if r[0] == "value" else None) for k, r in got.items()}
+        shown = {k: (r[1] if r[0] == "value" else f"raises {r[1]}") for k, r in got.items()}
+        a, b, c = vals["5.0.0-SNAPSHOT"], vals["7.10.2"], vals["10.9.12-rc1"]
+        chk.ob("O15.1", "variants order: suffix, patch, minor, major", a is not None and len(a) == 4 and prefix_chain(a), av, f"5.0.0-SNAPSHOT -> {shown['5.0.0-SNAPSHOT']}")
+        ok = a is not None and b is not None and len(b) == len(a) - 1 and all(isinstance(x, str) and "None" not in x for x in b) and bool(a) and isinstance(a[0], str) and a[0].endswith("SNAPSHOT")
+        chk.ob("O15.1", "suffix variant only when the version has a suffix", ok, av, f"7.10.2 -> {shown['7.10.2']}; 5.0.0-SNAPSHOT -> {shown['5.0.0-SNAPSHOT']}")
+        chk.ob("O15.1", "variants list not re-ordered", b is not None and c is not None and prefix_chain(b) and prefix_chain(c) and len(c) == 4, av,
+               f"7.10.2 -> {shown['7.10.2']}; 10.9.12-rc1 -> {shown['10.9.12-rc1']}")
+        # formats: each documented spelling occurs among the variants (whatever attribute / helper produces it)
+        for name, wants in (("with_major", ("5", "7", "10")), ("with_minor", ("5.0", "7.10", "10.9")), ("with_patch", ("5.0.0", "7.10.2", "10.9.12")),
+                            ("with_suffix", ("5.0.0-SNAPSHOT", None, "10.9.12-rc1"))):
+            ok = all(w is None or (vs is not None and w in vs) for w, vs in zip(wants, (a, b, c)))
+            chk.ob("O15.1", f"{name} format", ok, init, f"documented {[w for w in wants if w]}; variants: {list(shown.values())}")
+
     bm = ver.func("best_match")
     if len(params_of(bm)) != 2:
         raise AnchorMissing("best_match(available_alternatives, distribution_version)")
-    alt, dist = params_of(bm)
-    loops = [n for n in walk_body(bm) if isinstance(n, ast.For)]
-    if not loops:
-        raise AnchorMissing("loop over the variants in best_match")
-    # the variants loop is the one iterating `<variants>.all_versions`; its two targets are the variant and its type (names by position)
-    L = next((n for n in loops if isinstance(n.iter, ast.Attribute) and n.iter.attr == "all_versions"), loops[0])
-    ok = isinstance(L.iter, ast.Attribute) and L.iter.attr == "all_versions" and isinstance(L.target, ast.Tuple) and len(L.target.elts) == 2 and all(isinstance(t, ast.Name) for t in L.target.elts)
-    vvar, tvar = (L.target.elts[0].id, L.target.elts[1].id) if ok else (None, None)
-    chk.ob("O15.1", "matcher iterates the variants in list order", ok, L, u(L.iter))
-    fb = [n for n in ast.walk(L) if isinstance(n, ast.Call) and last_attr(n.func) == "latest_bounded_minor"]
-    found_names = {bound_name(c) for c in fb} - {None}
 
-    def is_fallback_value(n):
-        while isinstance(n, ast.NamedExpr):
-            n = n.value
-        return (isinstance(n, ast.Call) and last_attr(n.func) == "latest_bounded_minor") or (isinstance(n, ast.Name) and n.id in found_names)
+    def match(alts, version):
+        fresh()
+        return iv.call_function(bm, [list(alts), version])
 
-    def step(exact, step_type, found):
-        """outcome of one loop step, evaluated for: variant among the alternatives? / type of the step (a value) / bounded-minor search found something?"""
-
-        def atom(n, env):
-            if vvar is None:
-                return None
-            if pat.match(n, f"V_v in {alt}", {"v": vvar}) is not None:
-                return exact
-            if pat.match(n, f"V_v not in {alt}", {"v": vvar}) is not None:
-                return not exact
-            if isinstance(n, ast.Compare) and len(n.ops) == 1 and isinstance(n.ops[0], (ast.Is, ast.IsNot)) and is_none(n.comparators[0]) and is_fallback_value(n.left):
-                return found if isinstance(n.ops[0], ast.IsNot) else not found
-            if is_fallback_value(n):
-                return found  # a truthiness test is O15.2's finding; here only the ORDER of the tests is decided
-            if isinstance(n, (ast.BoolOp, ast.UnaryOp, ast.NamedExpr)):
-                return None
-            try:
-                return bool(minieval.ev(n, {tvar: step_type}))  # tests on the step type are evaluated as Python would, whatever their spelling
-            except minieval.CannotEval:
-                return None
-
-        return decide(L.body, atom, {})
-
-    firsts = [n for n in ast.walk(L) if isinstance(n, ast.If) and vvar is not None and any(pat.is_(a, f"V_v in {alt}", f"V_v not in {alt}", binds={"v": vvar}) for a in atoms_of(n.test))]
-    first = firsts[0] if firsts else None
-    outs = {}
-    try:
-        for case in itertools.product([True, False], ["with_suffix", "with_patch", "with_minor", "with_major"], [True, False]):
-            outs[case] = step(*case)
-    except (Unsupported, UnknownAtom) as e:
-        chk.unknown("O15.1", f"a step of the variants loop is not a decision over (exact match, step type, bounded-minor result): {e}", L)
-        outs = None
-    if outs is not None:
-        # whatever the step type and the fallback would say, an available variant is returned itself
-        ok = first is not None and all(o.kind == "return" and isinstance(o.value, ast.Name) and o.value.id == vvar for c, o in outs.items() if c[0])
-        chk.ob("O15.1", "exact test first in each step (returns the variant itself)", ok, first if first is not None else L, short(first, 60) if first is not None else "")
-        ok = False
-        if fb and first is not None:
-            g = cfg_of(bm)
-            ok = g.dominated_by_nodes(g.node_of(fb[0]), [g.node_of(first)]) and not g.path_exists(g.node_of(fb[0]), g.node_of(first), avoid=[g.node_of(L)])
-            # no exact match: the fallback result is returned at the minor step when the search found something, and at no other step / in no other case
-            taken = outs[(False, "with_minor", True)]
-            ok = ok and taken.kind == "return" and not (isinstance(taken.value, ast.Name) and taken.value.id == vvar) and not is_none(taken.value) and taken.value is not None
-            ok = ok and all(o.kind in ("fallthrough", "continue") for c, o in outs.items() if not c[0] and c != (False, "with_minor", True))
-        chk.ob("O15.1", "nearest-prior-minor fallback after the exact test, at the minor step only", ok, fb[0] if fb else L, "")
+    ALL = ["8", "8.5", "8.5.1", "8.5.1-SNAPSHOT", "master"]
+    table(chk, "O15.1", "matcher iterates the variants in list order (most specific available variant wins)", [
+        (f"{ALL} for 8.5.1-SNAPSHOT", (ALL, "8.5.1-SNAPSHOT"), "8.5.1-SNAPSHOT"),
+        (f"{ALL[:3] + ALL[4:]} for 8.5.1-SNAPSHOT", (ALL[:3] + ALL[4:], "8.5.1-SNAPSHOT"), "8.5.1"),
+        (f"{ALL} for 8.5.1", (ALL, "8.5.1"), "8.5.1"),
+        ("['master', '8', '8.5'] for 8.5.1", (["master", "8", "8.5"], "8.5.1"), "8.5"),
+        ("['7', '8', 'master'] for 8.5.1", (["7", "8", "master"], "8.5.1"), "8"),
+    ], bm, match)
+    table(chk, "O15.1", "exact test first in each step (returns the variant itself)", [
+        ("['8.3', '8.5'] for 8.5.1", (["8.3", "8.5"], "8.5.1"), "8.5"),
+        ("['8.5', '8.3'] for 8.5.1", (["8.5", "8.3"], "8.5.1"), "8.5"),
+        ("['8.3', '8.5.1'] for 8.5.1", (["8.3", "8.5.1"], "8.5.1"), "8.5.1"),
+        ("['8.3', '8.5.1-SNAPSHOT'] for 8.5.1-SNAPSHOT", (["8.3", "8.5.1-SNAPSHOT"], "8.5.1-SNAPSHOT"), "8.5.1-SNAPSHOT"),
+    ], bm, match)
+    table(chk, "O15.1", "nearest-prior-minor fallback after the exact test, at the minor step only", [
+        ("['8.3', '8'] for 8.5.1", (["8.3", "8"], "8.5.1"), "8.3"),
+        ("['8', '8.3'] for 8.5.1", (["8", "8.3"], "8.5.1"), "8.3"),
+        ("['8.3'] for 8.5.1", (["8.3"], "8.5.1"), "8.3"),
+        ("['8.7', '8'] for 8.5.1 (a later minor is never used)", (["8.7", "8"], "8.5.1"), "8"),
+        ("['8.3', '8.4', '8.1', '8'] for 8.5.1", (["8.3", "8.4", "8.1", "8"], "8.5.1"), "8.4"),
+        ("['7', '7.10', 'master'] for 7.1.0", (["7", "7.10", "master"], "7.1.0"), "7"),
+    ], bm, match)
 
     # ---- O15.2 no truthiness on optional ints ----------------------------------------------------------------------------------------------------
     chk.rule("O15.2", "values flowing from the version-component tuple or from the bounded-minor search (ints or None, 0 meaningful) are tested only with `is (not) None` / comparisons, never by truthiness", 2,
@@ -268,6 +1021,11 @@ def run(chk):
                 if isinstance(n, ast.Compare) and any((isinstance(x, ast.Name) and x.id in names) or (isinstance(x, ast.NamedExpr) and x.target.id in names) for x in [n.left] + n.comparators):
                     chk.ob("O15.2", f"{f.name}: `{short(n, 50)}` tests an optional int explicitly", True, n, "")
     chk.stats["optional_int_truthiness_sites"] = n_sites
+    # the same necessary condition on values (independent of how the tests are spelled): a '.0' component is a component
+    table(chk, "O15.2", "a '.0' minor is a minor", [
+        ("['7.0', '6', 'master'] for 7.3.1", (["7.0", "6", "master"], "7.3.1"), "7.0"),
+        ("['8.0', '7', 'master'] for 8.0.3", (["8.0", "7", "master"], "8.0.3"), "8.0"),
+    ], bm, match, why="a truthiness test treats minor 0 (or a nearest minor 0) as missing")
 
     # ---- O15.3 eligibility ------------------------------------------------------------------------------------------------------------------------
     chk.rule("O15.3", "bounded-minor search: eligible iff same major, minor present (0 included) and minor <= target minor, no patch, no suffix; result is the nearest (max) eligible or None; "
@@ -276,132 +1034,102 @@ def run(chk):
     lb = ver.func("latest_bounded_minor")
     if len(params_of(lb)) != 2:
         raise AnchorMissing("latest_bounded_minor(alternatives, target_version)")
-    altp, tgt = params_of(lb)
-    # the candidate loop is the one in which a branch name is split into its components; the four locals are named by their tuple position
-    lloops = [n for n in walk_body(lb) if isinstance(n, ast.For) and unpacked_names(n, "components")]
-    if not lloops:
-        raise AnchorMissing("loop over alternatives with a `major, minor, patch, suffix = components(...)` unpacking in latest_bounded_minor")
-    LL = lloops[0]
-    comp = [a for a, _ in unpacked_names(LL, "components")]
-    mj, mn, pa, sf = unpacked_names(LL, "components")[0][1]
-    strict_kw = source.arg_of(comp[0].value, 1, "strict")
-    chk.ob("O15.3", "branch names parsed non-strictly (M, M.m allowed)", strict_kw is not None and source.is_const(strict_kw, False), comp[0], "")
-    # the loop body is decided on VALUES: target 8.5, candidate major in (7, 8, 9), minor in (None, 0, 3, 5, 7), patch in (None, 1), suffix in (None, 'x');
-    # every test is evaluated as Python would (including truthiness of a bare name), so operator choice, orientation and arm order are free
+
+    def target(version):
+        """the `target_version` argument: a VersionVariants object, as best_match passes it."""
+        return iv.instantiate(VV, [version])
+
+    def bounded(alts, version="8.5.0"):
+        fresh()
+        return iv.call_function(lb, [list(alts), target(version)])
+
+    # branch names are parsed non-strictly: M and M.m branches take part (a strict parse raises InvalidSyntax for them / ignores them)
+    kind, got_ = attempt(lambda: bounded(["8", "8.3", "8.4.1", "8.4.1-rc1", "master"]))
+    if kind == "unknown":
+        chk.unknown("O15.3", f"latest_bounded_minor cannot be evaluated ({got_})", lb)
+    else:
+        strict_calls = [c for c in ref.calls if c[1] in ("8", "8.3") and c[2] is not False]
+        chk.ob("O15.3", "branch names parsed non-strictly (M, M.m allowed)", kind == "value" and got_ == 3 and not strict_calls, lb,
+               f"['8', '8.3', '8.4.1', '8.4.1-rc1', 'master'] for 8.5 -> {got_!r}" + (f"; strict parse of {strict_calls[0][1]!r}" if strict_calls else ""))
+    # the eligibility of ONE candidate is decided on values: target 8.5, candidate major in (7, 8, 9), minor in (None, 0, 3, 5, 7), patch in (None, 1), suffix in (None, 'x');
+    # the search is evaluated for the single candidate: it is eligible iff its minor comes back (operator choice, orientation, arm order, loop or comprehension are free)
     MINOR = {"none": None, "zero": 0, "less": 3, "equal": 5, "greater": 7}
     MAJOR = {"lower": 7, "same": 8, "higher": 9}
-    body = [s for s in LL.body]
-    rows = 0
     for (mjn, mjv), (m, mnv), patch, suffix in itertools.product(MAJOR.items(), MINOR.items(), [None, 1], [None, "x"]):
         if mnv is None and patch is not None:
             continue  # a patch without a minor cannot be written
-        vals = {mj: mjv, mn: mnv, pa: patch, sf: suffix, tgt: minieval.Record(major=8, minor=5, patch=0, suffix=None)}
-
-        def atom(n, env):
-            if isinstance(n, ast.Call) and last_attr(n.func) == "is_version_identifier":
-                return True
-            try:
-                return bool(minieval.ev(n, dict(vals)))
-            except minieval.CannotEval:
-                return None
-
-        try:
-            out = decide(body, atom, {})
-        except (Unsupported, UnknownAtom) as e:
-            chk.unknown("O15.3", f"eligibility is not a decision over (major, minor, patch, suffix) of the candidate and the target: {e}", LL)
-            break
-        eligible = any(isinstance(e, ast.Call) and last_attr(e.func) == "append" and len(e.args) == 1 and isinstance(e.args[0], ast.Name) and e.args[0].id == mn for e in out.effects)
-        want = mjn == "same" and m in ("zero", "less", "equal") and patch is None and suffix is None
-        accept = eligible == want or (m == "equal" and mjn == "same" and patch is None and suffix is None)  # `<` is accepted: the equal minor is taken by the exact step
-        rows += 1
-        chk.ob("O15.3", f"eligible? major {mjn}, minor {m}, patch {'set' if patch else 'none'}, suffix {'set' if suffix else 'none'}", accept, LL,
-               f"code: {'eligible' if eligible else 'not eligible'}; documented: {'eligible' if want else 'not eligible'}", key=f"{_V}:latest_bounded_minor:row:{mjn}|{m}|{patch is not None}|{suffix is not None}")
-    # result: nearest of eligible
-    # the list of eligible minors is the receiver of the `.append(<minor>)` in the candidate loop
-    elists = [n.func.value.id for n in ast.walk(LL) if isinstance(n, ast.Call) and last_attr(n.func) == "append" and isinstance(n.func.value, ast.Name) and len(n.args) == 1
-              and isinstance(n.args[0], ast.Name) and n.args[0].id == mn]
-    elist = elists[0] if elists else None
-    rets = [n for n in lb.body if isinstance(n, ast.Return)] + [n for n in walk_body(lb) if isinstance(n, ast.Return) and n not in lb.body]
-    final = [r for r in rets if not (r.value is None or is_none(returned_value(r)))]
-
-    def key_order(lam):
-        """+1 / -1 if the key function is strictly increasing / decreasing over eligible minors (all <= target minor 5), 0 otherwise; evaluated on values."""
-        if not (isinstance(lam, ast.Lambda) and len(lam.args.args) == 1):
-            raise minieval.CannotEval("key is not a one-parameter lambda")
-        ks = [minieval.ev(lam.body, {lam.args.args[0].arg: x, tgt: minieval.Record(major=8, minor=5, patch=0, suffix=None)}) for x in (0, 1, 3, 4, 5)]
-        if not all(isinstance(k, (int, float)) for k in ks):
-            raise minieval.CannotEval("key is not numeric")
-        return 1 if all(a < b for a, b in zip(ks, ks[1:])) else (-1 if all(a > b for a, b in zip(ks, ks[1:])) else 0)
-
-    ok = False
-    undecided = None
-    if len(final) == 1:
-        v = returned_value(final[0])
-        if isinstance(v, ast.Call) and dotted(v.func) in ("max", "min") and len(v.args) == 1 and all(k.arg == "key" for k in v.keywords):
-            want = 1 if dotted(v.func) == "max" else -1  # the nearest prior minor is the greatest eligible one
-            try:
-                ok = (key_order(v.keywords[0].value) if v.keywords else 1) == want
-            except minieval.CannotEval as e:
-                undecided = str(e)
-        elif isinstance(v, ast.Subscript) and u(v.slice) == "-1" and any(isinstance(c, ast.Call) and last_attr(c.func) == "sort" for c in ast.walk(lb)):
-            ok = True
-    if undecided is not None:
-        chk.unknown("O15.3", f"the selection key of the nearest eligible minor cannot be evaluated: {undecided}", final[0])
-    else:
-        chk.ob("O15.3", "result is the nearest eligible minor", ok, final[0] if final else lb, short(final[0], 90) if final else "")
-    none_rets = [r for r in rets if r.value is None or is_none(returned_value(r))]
-    # the None result is guarded by the fact "no eligible minor was collected" (either arm / polarity of the test)
-    ok = bool(none_rets) and elist is not None and pat.guarded(none_rets[0], "not V_e", "len(V_e) == 0", "V_e == []", binds={"e": elist}) is not None
-    chk.ob("O15.3", "None when nothing is eligible", ok, none_rets[0] if none_rets else lb, "")
-    # matcher: fallback result formatting and master rule
-    # names by role: the variants object (assigned from VersionVariants(...)), the components of the distribution version (tuple positions), the bounded-minor result
-    vv_names = {bound_name(n) for n in walk_body(bm) if isinstance(n, ast.Call) and last_attr(n.func) == "VersionVariants"} - {None}
-    env = {nm: minieval.Record(major=8, minor=5, patch=1, suffix=None, with_major="8", with_minor="8.5", with_patch="8.5.1", with_suffix=None) for nm in vv_names}
-    env.update({nm: 3 for nm in found_names})
-    env[dist] = "8.5.1"
-    for _, nms in unpacked_names(bm, "components"):
-        env.update({k: v_ for k, v_ in zip(nms, (8, 5, 1, None)) if k != "_"})
-    taken = outs[(False, "with_minor", True)] if outs is not None else None
-    fr = [(taken.node, taken.value)] if taken is not None and taken.kind == "return" and taken.value is not None else [(n, returned_value(n)) for n in ast.walk(L) if isinstance(n, ast.Return) and isinstance(returned_value(n), ast.JoinedStr)]
-    ok = False
-    if fr:
-        try:
-            # evaluated for target 8.5.1 and nearest eligible minor 3
-            ok = ev_text(fr[0][1], dict(env)) == "8.3"
-        except minieval.CannotEval:
-            fvs = [u(p_.value) for p_ in fr[0][1].values if isinstance(p_, ast.FormattedValue)] if isinstance(fr[0][1], ast.JoinedStr) else []
-            ok = bool(fvs) and fvs[0].endswith(".major")
-    fr = [x[0] for x in fr]
-    chk.ob("O15.3", "fallback result is '<target major>.<nearest minor>'", ok, fr[0] if fr else L, short(fr[0], 60) if fr else "")
-    masters = [n for n in walk_body(bm) if isinstance(n, ast.Return) and source.is_const(n.value, "master")]
-    STRICT = "E_m > _latest_major(E_a)"  # matches either orientation (`_latest_major(..) < major`); >= / <= do not match
-    conds = [[(u(source.inline_node(t, local_defs(bm))), pol) for t, pol in guards(m_)] for m_ in masters]
-    ok_strict = any(any(pat.is_(f, STRICT) for f in pat.fact_nodes(m_)) for m_ in masters)
-    chk.ob("O15.3", "master when the major is strictly greater than the latest major branch", ok_strict, masters[0] if masters else bm, f"master conditions: {conds}")
-    for m_ in masters:
-        fs = pat.fact_nodes(m_)
-        # a guard fact mentioning the latest major must be the strict comparison; otherwise the serverless / empty-version facts qualify
-        about_latest = [f for f in fs if any(isinstance(x, ast.Call) and last_attr(x.func) == "_latest_major" for x in ast.walk(f))]
-        if about_latest:
-            ok = all(pat.is_(f, STRICT) for f in about_latest)
+        if patch is not None or suffix is None:
+            cand = str(mjv) + (f".{mnv}" if mnv is not None else "") + (f".{patch}" if patch is not None else "") + (f"-{suffix}" if suffix is not None else "")
+            token = False
         else:
-            ok = any(pat.is_(f, "is_serverless(E_x)", "E_q.is_serverless(E_x)", f"not {dist}") for f in fs)
-        chk.ob("O15.3", "master only under strictly-greater major / serverless / empty version", ok, m_, f"{[(u(t), p_) for t, p_ in guards(m_)]}")
-    # what the matcher returns for an identified version is one of the GIVEN branches: `master` needs a membership fact (a repository without a master branch must fall
+            # a suffix without a patch is not a name the lenient pattern accepts: the combination is fed through the components() primitive as an opaque candidate
+            cand, token = f"<{mjv}.{mnv}-{suffix}>", True
+            ref.tokens[cand] = (mjv, mnv, patch, suffix)
+        kind, got_ = attempt(lambda: bounded([cand]))
+        ref.tokens.pop(cand, None)
+        if kind == "unknown" or (token and not any(c[0] == "components" and c[1] == cand for c in ref.calls)):
+            chk.unknown("O15.3", f"eligibility is not a decision over (major, minor, patch, suffix) of the candidate and the target: candidate {cand!r}: "
+                        f"{got_ if kind == 'unknown' else 'its components are not read through components()'}", lb)
+            break
+        eligible = kind == "value" and got_ is not None
+        want = mjn == "same" and m in ("zero", "less", "equal") and patch is None and suffix is None
+        accept = kind == "value" and (eligible == want or (m == "equal" and mjn == "same" and patch is None and suffix is None))  # `<` is accepted: the equal minor is taken by the exact step
+        if accept and eligible:
+            accept = got_ == mnv and type(got_) is int
+        chk.ob("O15.3", f"eligible? major {mjn}, minor {m}, patch {'set' if patch else 'none'}, suffix {'set' if suffix else 'none'}", accept, lb,
+               f"code: {('eligible' if eligible else 'not eligible') if kind == 'value' else 'raises ' + str(got_)} (candidate {cand}, target 8.5 -> {got_!r}); documented: {'eligible' if want else 'not eligible'}",
+               key=f"{_V}:latest_bounded_minor:row:{mjn}|{m}|{patch is not None}|{suffix is not None}")
+    # a patch 0 is a patch (a branch 8.3.0 is a patch branch, not the minor branch 8.3)
+    table(chk, "O15.3", "eligible? a patch / suffix branch with patch 0 is not a minor branch", [
+        ("['8.3.0'] for 8.5", (["8.3.0"],), None),
+        ("['8.3.0', '8.2'] for 8.5", (["8.3.0", "8.2"],), 2),
+        ("['8.4.0-rc1', '8.1'] for 8.5", (["8.4.0-rc1", "8.1"],), 1),
+    ], lb, bounded)
+    # result: the nearest (greatest) of the eligible minors, whatever the order of the branch list; None when nothing is eligible
+    table(chk, "O15.3", "result is the nearest eligible minor", [
+        ("['8.1', '8.4', '8.3'] for 8.5", (["8.1", "8.4", "8.3"],), 4),
+        ("['8.4', '8.1', '8.3'] for 8.5", (["8.4", "8.1", "8.3"],), 4),
+        ("['8.3', '8.1', '8.4'] for 8.5", (["8.3", "8.1", "8.4"],), 4),
+        ("['8.7', '8.2', '9.1', '7.4', '8.4.1', 'master', '8.0'] for 8.5", (["8.7", "8.2", "9.1", "7.4", "8.4.1", "master", "8.0"],), 2),
+        ("['8.0'] for 8.5", (["8.0"],), 0),
+        ("['7', '7.10', '7.11.2', '7.2', '5', '6', 'master'] for 7.12.3", (["7", "7.10", "7.11.2", "7.2", "5", "6", "master"], "7.12.3"), 10),
+    ], lb, bounded)
+    table(chk, "O15.3", "None when nothing is eligible", [
+        ("[] for 8.5", ([],), None),
+        ("['8.7', '9.0', '7.1', '8', 'master'] for 8.5", (["8.7", "9.0", "7.1", "8", "master"],), None),
+    ], lb, bounded)
+    # matcher: fallback result formatting and master rule
+    table(chk, "O15.3", "fallback result is '<target major>.<nearest minor>'", [
+        ("['8.3', '9.3', '7.4'] for 8.5.1", (["8.3", "9.3", "7.4"], "8.5.1"), "8.3"),
+        ("['8.9', '8.10', '8.2'] for 8.12.0", (["8.9", "8.10", "8.2"], "8.12.0"), "8.10"),
+        ("['7', '7.1', '7.11.1', '7.11.0', '7.2', '5', '6', 'master'] for 7.12.0", (["7", "7.1", "7.11.1", "7.11.0", "7.2", "5", "6", "master"], "7.12.0"), "7.2"),
+    ], bm, match)
+    table(chk, "O15.3", "master when the major is strictly greater than the latest major branch", [
+        ("['7', '8.1', 'master'] for 9.0.0", (["7", "8.1", "master"], "9.0.0"), "master"),
+        ("['1.7', '2', '5.0.0-alpha1', '5', 'master'] for 6.0.0-alpha1", (["1.7", "2", "5.0.0-alpha1", "5", "master"], "6.0.0-alpha1"), "master"),
+    ], bm, match)
+    table(chk, "O15.3", "master only under strictly-greater major / serverless / empty version", [
+        ("['8.9', '7', 'master'] for 8.5.1 (equal major)", (["8.9", "7", "master"], "8.5.1"), None),
+        ("['7', '9', 'master'] for 8.5.1 (lower major)", (["7", "9", "master"], "8.5.1"), None),
+        ("['1.7', '2', '5', 'master'] for 0.4.0 (older than every branch)", (["1.7", "2", "5", "master"], "0.4.0"), None),
+        ("['7', '8', 'master'] for serverless", (["7", "8", "master"], "serverless"), "master"),
+        ("['7', '8', 'master'] for the empty version", (["7", "8", "master"], ""), "master"),
+        ("['7', '8', 'master'] for no version", (["7", "8", "master"], None), "master"),
+    ], bm, match)
+    # what the matcher returns for an identified version is one of the GIVEN branches: `master` needs to be among them (a repository without a master branch must fall
     # through to the v-tag / the local branches / the error, not to a checkout of a branch that does not exist)
-    alt = params_of(bm)[0]
-    for m_ in masters:
-        fs = pat.fact_nodes(m_)
-        if any(isinstance(f, ast.Call) and last_attr(f.func) == "is_version_identifier" for f in fs):
-            ok = any(pat.is_(f, f"'master' in {alt}") for f in fs)
-            chk.ob("O15.3", "for an identified version `master` is returned only if it is among the given branches", ok, m_, f"facts {[u(f) for f in fs]}" + ("" if ok else
-                   f" — no `'master' in {alt}`: for a repository without master the v-tag / local fallback is skipped and the checkout of [master] fails"), key=f"{_V}:best_match:master-membership")
+    table(chk, "O15.3", "for an identified version `master` is returned only if it is among the given branches", [
+        ("['7', '8.1'] for 9.0.0", (["7", "8.1"], "9.0.0"), None),
+    ], bm, match, key=f"{_V}:best_match:master-membership", why="for a repository without master the v-tag / local fallback is skipped and the checkout of [master] fails")
+    table(chk, "O15.3", "for an identified version `master` is returned only if it is among the given branches", [
+        ("['main', '7'] for 8.1.0", (["main", "7"], "8.1.0"), None),
+    ], bm, match, key=f"{_V}:best_match:master-membership:2", why="for a repository without master the v-tag / local fallback is skipped and the checkout of [master] fails")
     # the lenient branch-name pattern accepts exactly MAJOR[.MINOR[.PATCH[-SUFFIX]]] (decided by matching the extracted literal against representative names):
     # an unrelated branch such as 123-fix-typo must not count as a version (components() would read absent parts)
-    import re as _re
     pats = {}
     for n in ver.tree.body:
-        if isinstance(n, ast.Assign) and isinstance(n.value, ast.Call) and dotted(n.value.func) == "re.compile" and n.value.args and isinstance(n.value.args[0], ast.Constant):
+        if isinstance(n, ast.Assign) and isinstance(n.value, ast.Call) and dotted(n.value.func) == "re.compile" and n.value.args and isinstance(n.value.args[0], ast.Constant) \
+                and isinstance(n.targets[0], ast.Name):
             pats[n.targets[0].id] = (n, n.value.args[0].value)
     vp_ = ver.func("_versions_pattern")
     lenient = [r_.value.orelse.id if isinstance(r_.value, ast.IfExp) and isinstance(r_.value.orelse, ast.Name) else None for r_ in walk_body(vp_) if isinstance(r_, ast.Return)]
@@ -410,8 +1138,8 @@ def run(chk):
         raise AnchorMissing("lenient version pattern (the one _versions_pattern returns for strict=False)")
     ln, ltxt = pats[lenient[0]]
     try:
-        rx = _re.compile(ltxt)
-    except _re.error as e:
+        rx = re.compile(ltxt)
+    except re.error as e:
         raise AnchorMissing(f"lenient version pattern does not compile: {e}")
     NAMES = [("7", True), ("7.3", True), ("7.3.1", True), ("7.3.1-SNAPSHOT", True), ("0.0", True), ("master", False), ("123-fix-typo", False), ("2024-05-cleanup", False), ("7-dev", False),
              ("8.1-backport", False), ("7.", False), ("v7.3.1", False), ("7.3.1.2", False), ("", False)]
@@ -421,33 +1149,41 @@ def run(chk):
                " — the name is parsed as a version with absent parts: int(None) raises TypeError in components(), the repository update crashes on an unrelated branch" if got else " — a versioned branch is ignored"),
                key=f"{_V}:{lenient[0]}:{name}")
     # master for a version identifier only after the variants loop is exhausted
-    g = cfg_of(bm)
-    for m_ in masters:
-        if any(isinstance(f, ast.Call) and last_attr(f.func) == "is_version_identifier" for f in pat.fact_nodes(m_)):
-            ok = g.dominated_by_nodes(g.node_of(m_), [g.node_of(L)]) and not g.path_exists(g.node_of(m_), g.node_of(L))
-            chk.ob("O15.3", "master considered only after every variant failed", ok, m_, "")
-    endret = bm.body[-1]
-    chk.ob("O15.3", "otherwise None", isinstance(endret, ast.Return) and (endret.value is None or is_none(endret.value)), endret, "")
+    table(chk, "O15.3", "master considered only after every variant failed", [
+        ("['9', '8', 'master'] for 9.1.0", (["9", "8", "master"], "9.1.0"), "9"),
+        ("['master', '9.0'] for 9.1.0", (["master", "9.0"], "9.1.0"), "9.0"),
+        ("['master', '9.1.0'] for 9.1.0", (["master", "9.1.0"], "9.1.0"), "9.1.0"),
+    ], bm, match)
+    table(chk, "O15.3", "otherwise None", [
+        ("['7', '8', 'master'] for 'latest' (neither a version nor serverless)", (["7", "8", "master"], "latest"), None),
+        ("['7', '8', 'master'] for '8.5' (not a full version)", (["7", "8", "master"], "8.5"), None),
+        ("[] for 8.5.1", ([], "8.5.1"), None),
+        ("['9', '10.2'] for 8.5.1", (["9", "10.2"], "8.5.1"), None),
+    ], bm, match)
     lm = ver.func("_latest_major")
-    ok = any(isinstance(n, ast.Assign) and isinstance(n.value, ast.Call) and dotted(n.value.func) == "max" for n in walk_body(lm)) and any(
-        isinstance(n, ast.Assign) and isinstance(n.value, ast.UnaryOp) and isinstance(n.value.op, ast.USub) for n in walk_body(lm))
-    chk.ob("O15.3", "_latest_major is the maximum major over the versioned branches (initial -1)", ok, lm, "")
-    # EVERY versioned branch counts (also 8.0.0-alpha1): between parsing a branch name and the next iteration the running maximum is always updated
-    from sa import pat as _p15
-    glm = cfg_of(lm)
-    lml = [n for n in walk_body(lm) if isinstance(n, ast.For)]
-    upd = [n for n in walk_body(lm) if isinstance(n, ast.Assign) and isinstance(n.value, ast.Call) and dotted(n.value.func) == "max"]
-    unp = [n for n in walk_body(lm) if isinstance(n, ast.Assign) and isinstance(n.value, ast.Call) and last_attr(n.value.func) == "components"]
-    ok = False
-    detail = ""
-    if lml and upd and unp:
-        fs = _p15.fact_nodes(unp[0], stop=lml[0])
-        only_ident = len(fs) == 1 and isinstance(fs[0], ast.Call) and last_attr(fs[0].func) == "is_version_identifier"
-        always = glm.must_pass(glm.node_of(unp[0]), [glm.node_of(upd[0])], exits=[glm.node_of(lml[0])], normal_only=True)
-        ok = only_ident and always and not guards(upd[0], stop=lml[0])[1:]
-        detail = f"parsed under {[u(f_) for f_ in fs]}; maximum updated on every path to the next branch: {always}" + \
-            ("" if ok else " — a versioned branch is left out: `master` is chosen for a version OLDER than that branch")
-    chk.ob("O15.3", "_latest_major counts every versioned branch (no further filter)", ok, upd[0] if upd else lm, detail, key=f"{_V}:_latest_major:every-versioned-branch")
+    if len(params_of(lm)) != 1:
+        raise AnchorMissing("_latest_major(alternatives)")
+
+    def latest(alts):
+        fresh()
+        return iv.call_function(lm, [list(alts)])
+
+    table(chk, "O15.3", "_latest_major is the maximum major over the versioned branches (initial -1)", [
+        ("[]", ([],), -1),
+        ("['master', 'main']", (["master", "main"],), -1),
+        ("['7', '8.1', 'master', '6']", (["7", "8.1", "master", "6"],), 8),
+        ("['8.1', '7', '6']", (["8.1", "7", "6"],), 8),
+        ("['9', '10.2', '7'] (majors compare as numbers)", (["9", "10.2", "7"],), 10),
+    ], lm, latest, why="`master` is chosen (or refused) against the wrong latest major")
+    # EVERY versioned branch counts (also 8.0.0-alpha1)
+    table(chk, "O15.3", "_latest_major counts every versioned branch (no further filter)", [
+        ("['7.3', '8.0.0-alpha1']", (["7.3", "8.0.0-alpha1"],), 8),
+        ("['7', '8.1.2', 'master']", (["7", "8.1.2", "master"],), 8),
+    ], lm, latest, key=lambda label: f"{_V}:_latest_major:every-versioned-branch:{label}", why="a versioned branch is left out: `master` is chosen for a version OLDER than that branch")
+    table(chk, "O15.3", "master only under strictly-greater major / serverless / empty version", [
+        ("['7', '9.0.0-alpha1', 'master'] for 8.5.1 (a pre-release branch of a later major exists)", (["7", "9.0.0-alpha1", "master"], "8.5.1"), None),
+        ("['10.1', '7', 'master'] for 9.5.1 (majors compare as numbers)", (["10.1", "7", "master"], "9.5.1"), None),
+    ], bm, match)
 
     # ---- O15.4 repository fallback order -------------------------------------------------------------------------------------------------------------
     chk.rule("O15.4", "repository update: remote best match < local best match < v-tag over the same variants order < raise; the checked-out ref is the matcher's result; "
@@ -462,43 +1198,121 @@ def run(chk):
         raise AnchorMissing("RallyRepository.update(self, distribution_version)")
     dv = params_of(up)[1]
     bms = [n for n in walk_body(up) if isinstance(n, ast.Call) and last_attr(n.func) == "best_match"]
-    ok = len(bms) == 2
-    chk.ob("O15.4", "two matcher calls (remote, local)", ok, up, f"{len(bms)} best_match call(s)")
+    # helper methods update() calls on the same object (an extracted `self._checkout_and_rebase(branch, ...)`)
+    me_ = params_of(up)[0]
+    helper_calls = []
+    for n in walk_body(up):
+        if isinstance(n, ast.Call) and isinstance(n.func, ast.Attribute) and isinstance(n.func.value, ast.Name) and n.func.value.id == me_:
+            h = rep.methods(RR).get(n.func.attr)
+            if h is not None and h is not up:
+                helper_calls.append((n, h))
+    helper_bms = [c for _n, h in helper_calls for c in walk_body(h) if isinstance(c, ast.Call) and last_attr(c.func) == "best_match"]
+    if not bms or (len(bms) != 2 and helper_bms):
+        # the searches are (partly) made in helper methods: the fallback order across methods is not decided here
+        chk.unknown("O15.4", f"{len(bms)} matcher call(s) (best_match) located in RallyRepository.update itself, {len(helper_bms)} in helper methods it calls: the order remote < local "
+                    "across methods is not recognised", up)
+        bms = []
+    else:
+        chk.ob("O15.4", "two matcher calls (remote, local)", len(bms) == 2, up, f"{len(bms)} best_match call(s)")
+
+    gb = git.func("branches")
+    gb_params = params_of(gb)
+    if len(gb_params) < 2:
+        raise AnchorMissing("git.branches(src_dir, remote=...)")
+    i_def = 1 - (len(gb_params) - len(gb.args.defaults))
+    flag_default = gb.args.defaults[i_def] if 0 <= i_def < len(gb.args.defaults) else None
 
     def branch_source(c):
-        """the `remote` argument of the git.branches(...) call whose result this matcher call searches (None if it searches something else)."""
-        a0 = source.arg_of(c, 0, "available_alternatives")
+        """the remote flag of the git.branches(...) call whose result this matcher call searches (its default when omitted); None if the call searches something else."""
+        a0 = source.arg_of(c, 0, params_of(bm)[0])
         a0 = source.inline_node(a0, local_defs(up)) if a0 is not None else None
-        return source.arg_of(a0, 1, "remote") if isinstance(a0, ast.Call) and last_attr(a0.func) == "branches" else None
+        if not (isinstance(a0, ast.Call) and last_attr(a0.func) == "branches"):
+            return None
+        flag = source.arg_of(a0, 1, gb_params[1])
+        return flag if flag is not None else flag_default
 
-    # the two calls are told apart by WHAT they search (remote=self.remote / remote=False), not by their order in the text
-    rem = next((c for c in bms if is_self_attr(branch_source(c), "remote")), None)
+    # the two calls are told apart by WHAT they search (the remote flag of git.branches: False = local branches, anything else = the remote's), not by their order in the text
     loc = next((c for c in bms if source.is_const(branch_source(c), False)), None)
+    rem = next((c for c in bms if branch_source(c) is not None and not source.is_const(branch_source(c), False)), None)
     if len(bms) == 2:
-        ok = rem is not None and loc is not None and rem is not loc and pat.guarded(rem, "self.remote") is not None
-        chk.ob("O15.4", "remote branches first (only for remote repos), then local branches", ok and not gu.path_exists(gu.node_of(loc), gu.node_of(rem)), rem if rem is not None else up, "")
+        if rem is None or loc is None or rem is loc:
+            chk.unknown("O15.4", "the two matcher calls are not told apart by the remote flag of the git.branches(...) call they search", up)
+        else:
+            # the remote search runs only for repositories that have a remote: it is guarded by the very flag it passes on (or, for a literal True, by an attribute of the repository)
+            flag = branch_source(rem)
+            facts_ = pat.fact_nodes(rem)
+            ok = any(is_self_attr(f_) for f_ in facts_) if isinstance(flag, ast.Constant) else any(u(f_) == u(flag) for f_ in facts_)
+            chk.ob("O15.4", "remote branches first (only for remote repos), then local branches", ok and not gu.path_exists(gu.node_of(loc), gu.node_of(rem)), rem,
+                   f"remote flag `{u(flag)}`; guard facts {[u(f_) for f_ in facts_]}")
         for c in bms:
-            a1 = source.arg_of(c, 1, "distribution_version")
+            a1 = source.arg_of(c, 1, params_of(bm)[1])
+            if a1 is None:
+                chk.unknown("O15.4", "the version argument of a matcher call is not located", c)
+                continue
+            a1 = source.inline_node(a1, local_defs(up))
             ok = isinstance(a1, ast.Name) and a1.id == dv
-            chk.ob("O15.4", "matcher called with the distribution version", ok, c, "")
+            chk.ob("O15.4", "matcher called with the distribution version", ok, c, u(a1))
+
+    def known_absent(node, name):
+        """a guard fact of node says that the local `name` holds nothing: `not name` / `name is None`, also when the local is bound in the test itself (`if not (name := f())`)."""
+        def is_it(x):
+            return (isinstance(x, ast.Name) and x.id == name) or (isinstance(x, ast.NamedExpr) and isinstance(x.target, ast.Name) and x.target.id == name)
+
+        for f_ in pat.fact_nodes(node):
+            if isinstance(f_, ast.UnaryOp) and isinstance(f_.op, ast.Not) and is_it(f_.operand):
+                return True
+            if isinstance(f_, ast.Compare) and len(f_.ops) == 1 and isinstance(f_.ops[0], ast.Is) and is_it(f_.left) and isinstance(f_.comparators[0], ast.Constant) and f_.comparators[0].value is None:
+                return True
+        return False
+
     # names by role: the local holding the local-branch match, the local holding the tag
     tagc = [n for n in walk_body(up) if isinstance(n, ast.Call) and last_attr(n.func) == "_find_matching_tag"]
     lbranch = bound_name(loc) if loc is not None else None
-    ok = bool(tagc) and len(bms) == 2 and lbranch is not None and gu.dominated_by_nodes(gu.node_of(tagc[0]), [gu.node_of(loc)]) and pat.guarded(tagc[0], "not V_b", binds={"b": lbranch}) is not None
-    chk.ob("O15.4", "tags only after no local branch matched", ok, tagc[0] if tagc else up, "")
+    if not tagc or lbranch is None:
+        if len(bms) == 2:
+            chk.unknown("O15.4", "the tag fallback (_find_matching_tag call) / the local holding the local-branch match is not located in update()", up)
+        # with ONE matcher call the missing search is reported above
+    else:
+        ok = gu.dominated_by_nodes(gu.node_of(tagc[0]), [gu.node_of(loc)]) and known_absent(tagc[0], lbranch)
+        chk.ob("O15.4", "tags only after no local branch matched", ok, tagc[0], "")
     raises = [n for n in walk_body(up) if isinstance(n, ast.Raise) and not isinstance(source.enclosing(n, (ast.ExceptHandler,)), ast.ExceptHandler)]
     tagv = bound_name(tagc[0]) if tagc else None
-    ok = bool(raises) and tagv is not None and pat.guarded(raises[0], "not V_t", binds={"t": tagv}) is not None
-    chk.ob("O15.4", "explicit error when nothing qualifies", ok, raises[0] if raises else up, "")
+    if not raises or tagv is None:
+        if tagc:
+            chk.unknown("O15.4", "the error for `nothing qualifies` (a raise outside the handlers) / the local holding the tag is not located in update()", up)
+    else:
+        ok = any(known_absent(r_, tagv) for r_ in raises)
+        chk.ob("O15.4", "explicit error when nothing qualifies", ok, raises[0], "")
+
+    def words(func):
+        """words of the git command line(s) a function builds: the string literals of every expression (plain, %-format, concatenation or f-string) whose text starts with `git`;
+        messages and docstrings do not count."""
+        out = []
+        seen = set()
+        for x in ast.walk(func):
+            if not (isinstance(x, ast.Constant) and isinstance(x.value, str)):
+                continue
+            root = x
+            while isinstance(source.parent(root), (ast.JoinedStr, ast.FormattedValue, ast.BinOp)):
+                root = source.parent(root)
+            if id(root) in seen:
+                continue
+            seen.add(id(root))
+            lits = sorted((c for c in ast.walk(root) if isinstance(c, ast.Constant) and isinstance(c.value, str)), key=lambda c: (c.lineno, c.col_offset))
+            if lits and lits[0].value.lstrip().startswith("git"):
+                out += " ".join(c.value for c in lits).split()
+        return out
+
     # the remote branch list is the list the remote HAS: fetch prunes deleted remote branches and brings the tags the tag fallback searches
     gf = git.func("fetch")
-    cmds = [x for x in ast.walk(gf) if isinstance(x, ast.JoinedStr)]
-    lit = " ".join(str(v.value) for c_ in cmds for v in c_.values if isinstance(v, ast.Constant))
-    toks = lit.split()
-    ok = "fetch" in toks and "--prune" in toks and "--tags" in toks
-    chk.ob("O15.4", "git fetch prunes deleted remote branches and fetches tags", ok, cmds[0] if cmds else gf, f"command words: {toks}" +
-           ("" if ok else " — without --prune a branch deleted upstream keeps matching (origin/<branch> is stale) and is checked out instead of the documented fallback"),
-           key="esrally/utils/git.py:fetch:prune-and-tags")
+    toks = words(gf)
+    if "fetch" not in toks:
+        chk.unknown("O15.4", f"the git command of git.fetch is not located (words: {toks[:12]})", gf)
+    else:
+        ok = "--prune" in toks and "--tags" in toks
+        chk.ob("O15.4", "git fetch prunes deleted remote branches and fetches tags", ok, gf, f"command words: {toks}" +
+               ("" if ok else " — without --prune a branch deleted upstream keeps matching (origin/<branch> is stale) and is checked out instead of the documented fallback"),
+               key="esrally/utils/git.py:fetch:prune-and-tags")
     # every git command that names the repository directory interpolates the ESCAPED path (a raw path with a backslash / space is mangled by the shell-style splitting: git's error
     # text then becomes the "branch list")
     n_cmd = 0
@@ -509,6 +1323,12 @@ def run(chk):
         raw = gps[0]
         for c in [c for c in walk_body(gfn) if isinstance(c, ast.Call) and (dotted(c.func) or "").startswith("process.run_subprocess") and c.args]:
             cmd = c.args[0]
+            if isinstance(cmd, ast.Name) and cmd.id in local_defs(gfn):
+                # a command line built in a local first (git.is_branch, not on the update path): reported as an advisory only
+                held = local_defs(gfn)[cmd.id]
+                if isinstance(held, ast.JoinedStr) and any(isinstance(v, ast.FormattedValue) and isinstance(v.value, ast.Name) and v.value.id == raw for v in held.values):
+                    chk.adv("O15.4", f"git.{gfn.name}: the repository path `{raw}` is interpolated raw (not escaped) in {short(held, 60)}", c)
+                continue
             interp = [v.value for v in cmd.values if isinstance(v, ast.FormattedValue)] if isinstance(cmd, ast.JoinedStr) else \
                 (list(cmd.right.elts) if isinstance(cmd, ast.BinOp) and isinstance(cmd.op, ast.Mod) and isinstance(cmd.right, ast.Tuple) else ([cmd.right] if isinstance(cmd, ast.BinOp) and isinstance(cmd.op, ast.Mod) else []))
             if not interp:
@@ -517,85 +1337,248 @@ def run(chk):
             bare = [x for x in interp if isinstance(x, ast.Name) and x.id == raw]
             chk.ob("O15.4", f"git.{gfn.name}: the repository path is interpolated escaped", not bare, c, "" if not bare else f"`{raw}` is used raw in {short(cmd, 60)}",
                    key=f"esrally/utils/git.py:{gfn.name}:escaped-path:{len([x for x in walk_body(gfn) if isinstance(x, ast.Call) and x.lineno < c.lineno and (dotted(x.func) or '').startswith('process.run_subprocess')])}")
-    chk.ob("O15.4", "git command sites located", n_cmd >= 8, git.tree, f"{n_cmd} command(s) with interpolated arguments")
+    if n_cmd >= 8:
+        chk.ob("O15.4", "git command sites located", True, git.tree, f"{n_cmd} command(s) with interpolated arguments")
+    else:
+        chk.unknown("O15.4", f"only {n_cmd} git command(s) with interpolated arguments located in git.py (8 expected: the command sites are built differently)", git.tree)
     # a fresh clone has ALL branches of the remote (a shallow / single-branch clone only knows the default branch: every version then falls back to it)
     gcl = git.func("clone")
-    ctoks = " ".join(str(v.value) for x in ast.walk(gcl) if isinstance(x, ast.JoinedStr) for v in x.values if isinstance(v, ast.Constant)).split() + \
-        " ".join(x.value for x in ast.walk(gcl) if isinstance(x, ast.Constant) and isinstance(x.value, str) and "clone" in x.value).split()
-    narrowing = [t for t in ctoks if t.startswith(("--depth", "--single-branch", "--shallow", "--branch", "-b", "--filter", "--no-tags"))]
-    chk.ob("O15.4", "git clone fetches every branch (no --depth / --single-branch / --branch)", "clone" in ctoks and not narrowing, gcl, f"command words: {[t for t in ctoks if not t.startswith('%')]}" +
-           ("" if not narrowing else f" — {narrowing} leaves only the default branch: the best match for every version is then the default branch"), key="esrally/utils/git.py:clone:all-branches")
-    fcalls = [c for c in walk_body(up) if isinstance(c, ast.Call) and dotted(c.func) == "git.fetch"]
-    rb = [c for c in walk_body(up) if isinstance(c, ast.Call) and dotted(c.func) == "git.branches" and "self.remote" in u(c)]
-    ok = bool(fcalls) and bool(rb) and all(gu.dominated_by_nodes(gu.node_of(b_), [gu.node_of(f_) for f_ in fcalls]) for b_ in rb) or (not fcalls and bool(rb))
-    if not fcalls:
-        # the fetch happens in the constructor / another method: accept when some method of the class calls git.fetch under the remote flag
-        anyf = [c for f_ in rep.methods(RR).values() for c in walk_body(f_) if isinstance(c, ast.Call) and dotted(c.func) == "git.fetch"]
-        ok = bool(anyf)
-    chk.ob("O15.4", "remote branches are listed after a fetch", ok, rb[0] if rb else up, "")
+    ctoks = words(gcl)
+    if "clone" not in ctoks:
+        chk.unknown("O15.4", f"the git command of git.clone is not located (words: {ctoks[:12]})", gcl)
+    else:
+        narrowing = [t for t in ctoks if t.startswith(("--depth", "--single-branch", "--shallow", "--branch", "-b", "--filter", "--no-tags"))]
+        chk.ob("O15.4", "git clone fetches every branch (no --depth / --single-branch / --branch)", not narrowing, gcl, f"command words: {[t for t in ctoks if not t.startswith('%')]}" +
+               ("" if not narrowing else f" — {narrowing} leaves only the default branch: the best match for every version is then the default branch"), key="esrally/utils/git.py:clone:all-branches")
+    fcalls = [c for c in walk_body(up) if isinstance(c, ast.Call) and dotted(c.func) in ("git.fetch", "git.pull")]
+    rb = [c for c in bms if c is rem]
+    if not rb:
+        if len(bms) == 2:
+            chk.unknown("O15.4", "the listing of the remote branches is not located in update()", up)
+    elif fcalls:
+        ok = all(gu.dominated_by_nodes(gu.node_of(b_), [gu.node_of(f_) for f_ in fcalls]) for b_ in rb)
+        chk.ob("O15.4", "remote branches are listed after a fetch", ok, rb[0], "")
+    else:
+        # the fetch happens in the constructor / another method: accept when some method of the class calls git.fetch
+        anyf = [c for f_ in rep.methods(RR).values() for c in walk_body(f_) if isinstance(c, ast.Call) and dotted(c.func) in ("git.fetch", "git.pull")]
+        chk.ob("O15.4", "remote branches are listed after a fetch", bool(anyf), rb[0], "" if anyf else "no method of the class fetches")
+    # checkouts are analysed where they are written: in update() itself or in a helper method update() calls on the same object (`self._checkout_and_rebase(branch, ...)`): the
+    # helper's parameter is mapped back to the argument at the call site, and an error must neither be absorbed inside the helper nor around the call
     cos = [n for n in walk_body(up) if isinstance(n, ast.Call) and dotted(n.func) == "git.checkout"]
+    sites = [(c, up, gu, None, {}) for c in cos]
+    for n, h in helper_calls:
+        for c in walk_body(h):
+            if isinstance(c, ast.Call) and dotted(c.func) == "git.checkout":
+                sites.append((c, h, cfg_of(h), n, source.bind_args(n, h)))
+    if not sites:
+        chk.unknown("O15.4", "no git.checkout call located in update() or in a helper method it calls", up)
     # a checkout of the selected local branch may be skipped only when that very branch is checked out already: the only test on the current branch is (in)equality with the selection
-    cbt = [f_ for c in cos for f_ in pat.fact_nodes(c) if any(isinstance(x, ast.Call) and dotted(x.func) == "git.current_branch" for x in ast.walk(f_))]
+    # (a local that holds the current branch is seen through: `current = git.current_branch(d)` ... `if current != branch`)
+    cur_defs = {k: v for k, v in local_defs(up).items() if isinstance(v, ast.Call) and dotted(v.func) == "git.current_branch"}
+
+    def inlined_current(f_):
+        return source.inline_node(f_, cur_defs) if cur_defs else f_
+
+    cbt = []
+    for c, fn_, g_, via, _b in sites:
+        for f_ in pat.fact_nodes(via if via is not None else c):
+            if any(isinstance(x, ast.Call) and dotted(x.func) == "git.current_branch" for x in ast.walk(inlined_current(f_))) and not any(f_ is y for y in cbt):
+                cbt.append(f_)
     for f_ in cbt:
-        ok = pat.is_(f_, "git.current_branch(E_d) != V_b")
+        ok = pat.is_(inlined_current(f_), "git.current_branch(E_d) != V_b")
         chk.ob("O15.4", "checkout skipped only if the current branch EQUALS the selected one", ok, f_, u(f_) + ("" if ok else " — a branch whose name merely relates to the selection (suffix, prefix, ...) is kept: `8.8` stays checked out when `8` was selected"),
                key="esrally/utils/repo.py:RallyRepository.update:skip-only-if-equal")
-    chk.ob("O15.4", "current-branch test located", len(cbt) >= 1, up, f"{len(cbt)} test(s)")
+    if cbt:
+        chk.ob("O15.4", "current-branch test located", True, up, f"{len(cbt)} test(s)")
+    elif sites:
+        chk.unknown("O15.4", "no test on git.current_branch(...) guards a checkout of update() (the skip-if-already-checked-out test is written differently)", up)
     # the revision pinned for later loads (workers re-load with it) is the head AFTER the ref was switched: no checkout / rebase can follow a revision read
-    revw = [n for n in walk_body(up) if isinstance(n, ast.Assign) and any(is_self_attr(t, "revision") for t in n.targets) and isinstance(n.value, ast.Call) and last_attr(n.value.func) == "head_revision"]
-    movers = [n for n in walk_body(up) if isinstance(n, ast.Call) and dotted(n.func) in ("git.checkout", "git.rebase", "git.pull", "git.fetch")]
+
+    def rev_writes(fn_):
+        return [n for n in walk_body(fn_) if isinstance(n, ast.Assign) and any(isinstance(t, ast.Attribute) and t.attr == "revision" and isinstance(t.value, ast.Name) and t.value.id == params_of(fn_)[0]
+                                                                               for t in n.targets) and isinstance(n.value, ast.Call) and last_attr(n.value.func) == "head_revision"]
+
+    def git_movers(fn_):
+        return [n for n in walk_body(fn_) if isinstance(n, ast.Call) and dotted(n.func) in ("git.checkout", "git.rebase", "git.pull", "git.fetch")]
+
+    # in update() a call of a helper that itself switches the ref counts as a ref-changing call
+    movers = git_movers(up) + [n for n, h in helper_calls if git_movers(h)]
+    revw = rev_writes(up)
     for w_ in revw:
         later = [m_ for m_ in movers if gu.path_exists(gu.node_of(w_), gu.node_of(m_)) and gu.node_of(w_) is not gu.node_of(m_)]
         chk.ob("O15.4", "the pinned revision is read after the last ref-changing git call", not later, w_,
                "" if not later else f"`{short(later[0], 50)}` (line {later[0].lineno}) can still run after the revision was recorded: later loads check out the commit Rally was on BEFORE selecting the branch",
                key=f"esrally/utils/repo.py:RallyRepository.update:revision-after-checkout:{len([x for x in revw if x.lineno < w_.lineno])}")
-    chk.ob("O15.4", "revision recorded after a checkout", len(revw) >= 2, revw[0] if revw else up, f"{len(revw)} site(s)")
-    for c in cos:
-        ref = source.arg_of(c, 1, "branch")
+    n_rev = len(revw)
+    seen_h = []
+    for n, h in helper_calls:
+        gh = cfg_of(h)
+        for i_, w_ in enumerate(rev_writes(h)):
+            later = [m_ for m_ in git_movers(h) if gh.path_exists(gh.node_of(w_), gh.node_of(m_)) and gh.node_of(w_) is not gh.node_of(m_)]
+            if isinstance(source.parent(n), ast.Expr):
+                # (when update() tests the helper's result, which of its paths continues is not correlated here: only a plain call statement is followed)
+                later += [m_ for m_ in movers if gu.node_of(m_) is not gu.node_of(n) and gu.path_exists(gu.node_of(n), gu.node_of(m_))]
+            n_rev += 1
+            if any(h is x for x in seen_h) and not later:
+                continue  # the same helper called from several places: one instance per helper unless a call site is wrong
+            chk.ob("O15.4", "the pinned revision is read after the last ref-changing git call", not later, w_,
+                   f"in {h.name}(), called as `{short(n, 50)}`" + ("" if not later else f": `{short(later[0], 50)}` (line {later[0].lineno}) can still run after the revision was recorded: later loads check out the "
+                                                                  "commit Rally was on BEFORE selecting the branch"),
+                   key=f"esrally/utils/repo.py:RallyRepository.{h.name}:revision-after-checkout:{i_}:{len([x for x, _h in helper_calls if x.lineno < n.lineno])}")
+        seen_h.append(h)
+    # every checkout is followed by a revision read on every normal path to the end of the function it is written in (or, for a helper without one, of update())
+    if n_rev == 0:
+        if sites:
+            chk.unknown("O15.4", "no assignment `self.revision = git.head_revision(...)` located in update() or its helpers (the revision is recorded differently)", up)
+    else:
+        for c, fn_, g_, via, _b in sites:
+            ws = rev_writes(fn_)
+            if ws:
+                ok = g_.must_pass(g_.node_of(c), [g_.node_of(w_) for w_ in ws], normal_only=True)
+            elif via is not None and revw:
+                ok = gu.must_pass(gu.node_of(via), [gu.node_of(w_) for w_ in revw], normal_only=True) or gu.node_of(via) in [gu.node_of(w_) for w_ in revw]
+            else:
+                ok = False
+            chk.ob("O15.4", "revision recorded after a checkout", ok, c, f"{short(c, 60)} in {fn_.name}()" + ("" if ok else ": a normal path to the end of the function records no revision"))
 
-        def origins(name, seen=()):
-            """values that can reach the local `name` in update(), seen through plain aliases (`a = b`)."""
-            out = []
-            for n in walk_body(up):
-                if isinstance(n, ast.Assign) and any(isinstance(t, ast.Name) and t.id == name for t in n.targets):
-                    if isinstance(n.value, ast.Name) and n.value.id not in seen and n.value.id != name:
-                        out += origins(n.value.id, seen + (name,)) or [n.value]
-                    else:
-                        out.append(n.value)
-            return out
+    def origins(name, fn_=None, seen=()):
+        """values that can reach the local `name` in update() (or in the given helper), seen through plain aliases (`a = b`)."""
+        out = []
+        for n in walk_body(fn_ or up):
+            if isinstance(n, ast.Assign) and any(isinstance(t, ast.Name) and t.id == name for t in n.targets):
+                if isinstance(n.value, ast.Name) and n.value.id not in seen and n.value.id != name:
+                    out += origins(n.value.id, fn_, seen + (name,)) or [n.value]
+                else:
+                    out.append(n.value)
+            elif isinstance(n, ast.NamedExpr) and n.target.id == name:
+                out.append(n.value)
+        return out
 
-        d = origins(ref.id) if isinstance(ref, ast.Name) else None
-        ok = bool(d) and all(isinstance(x, ast.Call) and last_attr(x.func) in ("best_match", "_find_matching_tag") for x in d)
-        chk.ob("O15.4", "checked-out ref is the matcher's (or tag finder's) result", ok, c, short(c, 70))
+    def absorbed(g, node):
+        """an exception raised by `node` can reach the normal exit of the function through one of its handlers."""
+        cn = g.node_of(node)
+        exc_succ = [g.nodes[y] for (y, lab) in g.succ[cn.id] if lab.startswith("exc")]
+        return any(g.exit.id in g.reachable([s_]) for s_ in exc_succ if s_.kind == "except")
+
+    for c, fn_, g_, via, binds in sites:
+        ref_ = source.arg_of(c, 1, "branch")
+        while isinstance(ref_, ast.NamedExpr):
+            ref_ = ref_.value
+        located = True
+        scope = None
+        if via is not None:
+            # inside a helper: the ref is one of its parameters (continue with the argument update() passes for it) or one of its own locals
+            stored = isinstance(ref_, ast.Name) and any(isinstance(x, ast.Name) and x.id == ref_.id and isinstance(x.ctx, ast.Store) for x in walk_body(fn_))
+            if isinstance(ref_, ast.Name) and ref_.id in binds and not stored:
+                ref_ = binds[ref_.id]
+            elif stored:
+                scope = fn_
+            else:
+                located = False
+        d = origins(ref_.id, scope) if isinstance(ref_, ast.Name) else ([ref_] if isinstance(ref_, ast.Call) else None)
+        if located and not d and isinstance(ref_, ast.Name) and ref_.id in params_of(up):
+            chk.ob("O15.4", "checked-out ref is the matcher's (or tag finder's) result", False, c, f"{short(c, 70)}: `{ref_.id}` is a parameter of update(), not a result of the matcher")
+        elif not located or not d:
+            chk.unknown("O15.4", f"the origin of the ref handed to `{short(c, 60)}` is not located (neither a local of update() nor a parameter of the helper it is written in)", c)
+        else:
+            ok = all(isinstance(x, ast.Call) and last_attr(x.func) in ("best_match", "_find_matching_tag") for x in d)
+            chk.ob("O15.4", "checked-out ref is the matcher's (or tag finder's) result", ok, c, short(c, 70) + ("" if via is None else f" in {fn_.name}(), called as `{short(via, 60)}`"))
         # errors propagate: from the checkout's exception edges the normal exit is unreachable
-        cn = gu.node_of(c)
-        exc_succ = [gu.nodes[y] for (y, lab) in gu.succ[cn.id] if lab.startswith("exc")]
-        swallowed = any(gu.exit.id in gu.reachable([s]) for s in exc_succ if s.kind == "except")
-        chk.ob("O15.4", "a failing checkout is never swallowed", not swallowed, c, "" if not swallowed else "an enclosing handler absorbs the checkout error and update() returns normally: Rally continues on whatever branch was checked out before")
+        swallowed = absorbed(g_, c) or (via is not None and absorbed(gu, via))
+        chk.ob("O15.4", "a failing checkout is never swallowed", not swallowed, c, "" if not swallowed else
+               f"an enclosing handler absorbs the checkout error and {fn_.name}() returns normally: Rally continues on whatever branch was checked out before")
+    # the tag search walks the variants most specific first and matches `v<variant>`: decided on values (git.tags(...) and versions.variants_of(...) are the only calls it makes;
+    # the latter is evaluated from versions.py)
     ft = rep.methods(RR).get("_find_matching_tag")
-    ok = ft is not None and any(isinstance(n, ast.For) and isinstance(n.iter, ast.Call) and last_attr(n.iter.func) == "variants_of" for n in walk_body(ft)) and any(
-        isinstance(n, ast.JoinedStr) and isinstance(n.values[0], ast.Constant) and n.values[0].value == "v" for n in walk_body(ft))
-    chk.ob("O15.4", "tag search walks the same variants order with the 'v' prefix", ok, ft if ft is not None else RR, "")
     vo = ver.func("variants_of")
-    ok = any(isinstance(n, ast.For) and u(n.iter).endswith(".all_versions") for n in walk_body(vo))
-    chk.ob("O15.4", "variants_of yields all_versions in order", ok, vo, "")
+
+    def variants_of(version):
+        iv.budget = 60000
+        return list(iv.iterate(iv.call_function(vo, [version]), "variants_of"))
+
+    if ft is None:
+        chk.unknown("O15.4", "RallyRepository._find_matching_tag is not located", RR)
+    else:
+        def find_tag(tags, version):
+            ir = Interp(rep, stubs={"tags": lambda *a, **k: list(tags), "variants_of": variants_of})
+            me = _Obj(RR)
+            me.fields.update({"repo_dir": "/repo-dir", "resource_name": "tracks", "remote": True, "offline": False, "logger": OPAQUE})
+            return ir.call_function(ft, [version], bound=me)
+
+        table(chk, "O15.4", "tag search walks the same variants order with the 'v' prefix", [
+            ("tags ['v8.5', 'v8', '8.5.1', 'v9.0.0'] for 8.5.1", (["v8.5", "v8", "8.5.1", "v9.0.0"], "8.5.1"), "v8.5"),
+            ("tags ['v8', 'v8.5.1', 'v8.5'] for 8.5.1", (["v8", "v8.5.1", "v8.5"], "8.5.1"), "v8.5.1"),
+            ("tags ['v8.5.1', 'v8.5.1-SNAPSHOT'] for 8.5.1-SNAPSHOT", (["v8.5.1", "v8.5.1-SNAPSHOT"], "8.5.1-SNAPSHOT"), "v8.5.1-SNAPSHOT"),
+            ("tags ['8.5.1', '8.5', '8', 'master'] for 8.5.1 (no v prefix)", (["8.5.1", "8.5", "8", "master"], "8.5.1"), None),
+            ("tags ['v7', 'v9'] for 8.5.1", (["v7", "v9"], "8.5.1"), None),
+        ], ft, find_tag)
+    for v_ in ("8.5.1-SNAPSHOT", "7.10.2"):
+        k1, want_ = attempt(lambda: variant_values(v_))
+        k2, got_ = attempt(lambda: variants_of(v_))
+        if k1 == "unknown" or k2 == "unknown":
+            chk.unknown("O15.4", f"variants_of cannot be evaluated ({got_ if k2 == 'unknown' else want_})", vo)
+            break
+        chk.ob("O15.4", f"variants_of yields all_versions in order: {v_}", k1 == "value" and k2 == "value" and got_ == want_ and len(got_) >= 3, vo, f"variants_of: {got_!r}; all_versions: {want_!r}")
+    # remote ref -> branch name: only the remote prefix (first path component) is stripped; decided on values
     crb = git.func("_cleanup_remote_branch_names")
-    apps = [n for n in walk_body(crb) if isinstance(n, ast.Call) and last_attr(n.func) == "append"]
-    ok = False
-    detail = ""
-    if apps:
-        a = apps[0].args[0] if apps[0].args else apps[0]
-        while isinstance(a, ast.Call) and last_attr(a.func) == "strip":
-            a = a.func.value
-        detail = u(a)
-        # the ref is the loop variable of the enclosing loop (named by role)
-        loop = source.enclosing(apps[0], ast.For)
-        rv = loop.target.id if loop is not None and isinstance(loop.target, ast.Name) else None
-        ok = rv is not None and pat.is_(a, "V_r[V_r.index('/') + 1:]", "V_r.split('/', 1)[1]", "V_r.partition('/')[2]", "V_r[V_r.find('/') + 1:]", binds={"r": rv})
-    chk.ob("O15.4", "remote ref -> branch name strips only the remote prefix (first path component)", ok, apps[0] if apps else crb, detail + ("" if ok else " — branch names containing '/' (users/joe/8.3) would turn into version-looking names"))
 
+    def cleanup(refs):
+        return list(Interp(git).call_function(crb, [list(refs)]))
 
+    table(chk, "O15.4", "remote ref -> branch name strips only the remote prefix (first path component)", [
+        ("['origin/8.3', 'origin/master', 'origin/7']", (["origin/8.3", "origin/master", "origin/7"],), ["8.3", "master", "7"]),
+        ("['origin/users/joe/8.3']", (["origin/users/joe/8.3"],), ["users/joe/8.3"]),
+        ("['upstream/feature/7.x-backport', 'origin/8.3 ']", (["upstream/feature/7.x-backport", "origin/8.3 "],), ["feature/7.x-backport", "8.3"]),
+    ], crb, cleanup, why="branch names containing '/' (users/joe/8.3) would turn into version-looking names")
 from sa.selftest import V  # noqa: E402
+
+# source fragments the refactoring variants replace (each occurs exactly once)
+_LM_OLD = ("def _latest_major(alternatives):\n    max_major = -1\n    for a in alternatives:\n        if is_version_identifier(a, strict=False):\n"
+           "            major, _, _, _ = components(a, strict=False)\n            max_major = max(major, max_major)\n    return max_major\n")
+_BM_OLD = ('    if is_version_identifier(distribution_version):\n        versions = VersionVariants(distribution_version)\n        for version, version_type in versions.all_versions:\n'
+           '            if version in available_alternatives:\n                return version\n            # match nearest prior minor\n'
+           '            if version_type == "with_minor" and (latest_minor := latest_bounded_minor(available_alternatives, versions)) is not None:\n'
+           '                return f"{versions.major}.{latest_minor}"\n        # not found in the available alternatives, it could still be a master version\n'
+           '        major, _, _, _ = components(distribution_version)\n        if major > _latest_major(available_alternatives) and "master" in available_alternatives:\n'
+           '            return "master"\n    elif is_serverless(distribution_version):\n        return "master"\n    elif not distribution_version:\n        return "master"\n    return None\n')
+_BM_GUARD = ('    if not is_version_identifier(distribution_version):\n        if is_serverless(distribution_version) or not distribution_version:\n            return "master"\n        return None\n\n'
+             '    versions = VersionVariants(distribution_version)\n    for version, version_type in versions.all_versions:\n        if version in available_alternatives:\n            return version\n'
+             '        if version_type == "with_minor" and (latest_minor := latest_bounded_minor(available_alternatives, versions)) is not None:\n'
+             '            return f"{versions.major}.{latest_minor}"\n    major, _, _, _ = components(distribution_version)\n'
+             '    if major > _latest_major(available_alternatives) and "master" in available_alternatives:\n        return "master"\n    return None\n')
+_LB_OLD = ('    eligible_minors = []\n    for a in alternatives:\n        if is_version_identifier(a, strict=False):\n            major, minor, patch, suffix = components(a, strict=False)\n'
+           "            if patch is not None or suffix is not None:\n                # branches containing patch or patch-suffix aren't supported\n                continue\n"
+           '            if major == target_version.major and minor is not None and minor <= target_version.minor:\n                eligible_minors.append(minor)\n\n'
+           '    # no matching minor version\n    if not eligible_minors:\n        return None\n\n    eligible_minors.sort()\n\n'
+           '    return min(eligible_minors, key=lambda x: abs(x - target_version.minor))\n')
+_LB_HELPER = ('    eligible_minors = [m for m in (_eligible_minor(a, target_version) for a in alternatives) if m is not None]\n    return max(eligible_minors, default=None)\n\n\n'
+              'def _eligible_minor(alternative, target_version):\n    if not is_version_identifier(alternative, strict=False):\n        return None\n'
+              '    major, minor, patch, suffix = components(alternative, strict=False)\n    if patch is not None or suffix is not None or minor is None:\n        return None\n'
+              '    return minor if major == target_version.major and minor <= target_version.minor else None\n')
+_AV_OLD = ('        versions = [(self.with_suffix, "with_suffix")] if self.suffix else []\n        versions.extend(\n            [\n                (self.with_patch, "with_patch"),\n'
+           '                (self.with_minor, "with_minor"),\n                (self.with_major, "with_major"),\n            ]\n        )\n')
+_CRB_OLD = ('    branches = []\n    for ref in refs:\n        # git >= 2.40.0 reports an `origin` ref without a slash while previous versions\n        # reported a `origin/HEAD` ref.\n'
+            '        if "/" in ref and not ref.endswith("/HEAD"):\n            branches.append(ref[ref.index("/") + 1 :].strip())\n    return branches\n')
+_FT_OLD = ('        tags = git.tags(self.repo_dir)\n        for version in versions.variants_of(distribution_version):\n            # tags have a "v" prefix by convention.\n'
+           '            tag_candidate = f"v{version}"\n            if tag_candidate in tags:\n                return tag_candidate\n        return None\n')
+
+_UP_OLD = ('                    git.checkout(self.repo_dir, branch=branch)\n                    self.logger.info("Rebasing on [%s] in [%s] for distribution version [%s].", branch, self.repo_dir, distribution_version)\n'
+           '                    try:\n                        git.rebase(self.repo_dir, remote="origin", branch=branch)\n                        self.revision = git.head_revision(self.repo_dir)\n'
+           '                    except exceptions.SupplyError:\n                        self.logger.exception("Cannot rebase due to local changes in [%s]", self.repo_dir)\n'
+           '                        console.warn(\n                            "Local changes in [%s] prevent %s update from remote. Please commit your changes."\n'
+           '                            % (self.repo_dir, self.resource_name)\n                        )\n                    return\n')
+_UP_HELPER = ('    def _checkout_and_rebase(self, ref, distribution_version):\n        git.checkout(self.repo_dir, branch=ref)\n'
+              '        self.logger.info("Rebasing on [%s] in [%s] for distribution version [%s].", ref, self.repo_dir, distribution_version)\n        try:\n'
+              '            git.rebase(self.repo_dir, remote="origin", branch=ref)\n            self.revision = git.head_revision(self.repo_dir)\n        except exceptions.SupplyError:\n'
+              '            self.logger.exception("Cannot rebase due to local changes in [%s]", self.repo_dir)\n\n    def _find_matching_tag(self, distribution_version):\n')
+
+_LOCAL_OLD = ('                if git.current_branch(self.repo_dir) != branch:\n                    self.logger.info(\n'
+              '                        "Checking out [%s] in [%s] for distribution version [%s].", branch, self.repo_dir, distribution_version\n                    )\n'
+              '                    git.checkout(self.repo_dir, branch=branch)\n                    self.revision = git.head_revision(self.repo_dir)\n')
+_TAG_OLD = ('                    self.logger.info(\n                        "Checking out tag [%s] in [%s] for distribution version [%s].", tag, self.repo_dir, distribution_version\n                    )\n'
+            '                    git.checkout(self.repo_dir, branch=tag)\n                    self.revision = git.head_revision(self.repo_dir)\n')
+_SWITCH = ('    def _switch_to(self, ref, distribution_version):\n        self.logger.info("Checking out [%s] in [%s] for distribution version [%s].", ref, self.repo_dir, distribution_version)\n'
+           '        git.checkout(self.repo_dir, branch=ref)\n        self.revision = git.head_revision(self.repo_dir)\n\n    def _find_matching_tag(self, distribution_version):\n')
 
 VARIANTS = [
     V("F21: every part of the lenient pattern independently optional", "break", _V, '(?:\\.(\\d+)(?:\\.(\\d+)(?:-(.+))?)?)?$")', '(?:\\.(\\d+))?(?:\\.(\\d+))?(?:-(.+))?$")', "O15.3"),
@@ -615,6 +1598,92 @@ VARIANTS = [
       "                    self.logger.info(\"Rebasing on [%s] in [%s] for distribution version [%s].\", branch, self.repo_dir, distribution_version)\n                    try:\n                        git.checkout(self.repo_dir, branch=branch)\n", "O15.4"),
     V("tags before local branches", "break", _P, "            branch = versions.best_match(git.branches(self.repo_dir, remote=False), distribution_version)\n            if branch:", "            branch = None\n            if branch:", "O15.4"),
     V("checks out the current branch name", "break", _P, "                    git.checkout(self.repo_dir, branch=tag)", "                    git.checkout(self.repo_dir, branch=distribution_version)", "O15.4"),
+    # ---- refactored shapes (benign round): the value-decided obligations accept them, and still bite when the defect sits INSIDE the refactored shape
+    V("b2 shape: _latest_major as generator + max(default=-1)", "keep", _V, _LM_OLD,
+      "def _latest_major(alternatives):\n    majors = (components(a, strict=False)[0] for a in alternatives if is_version_identifier(a, strict=False))\n    return max(majors, default=-1)\n"),
+    V("generator _latest_major that skips patch / suffix branches", "break", _V, _LM_OLD,
+      "def _latest_major(alternatives):\n    parsed = [components(a, strict=False) for a in alternatives if is_version_identifier(a, strict=False)]\n"
+      "    return max((c[0] for c in parsed if c[2] is None), default=-1)\n", "O15.3"),
+    V("_latest_major from the lexicographically greatest branch name", "break", _V, _LM_OLD,
+      "def _latest_major(alternatives):\n    versioned = sorted(a for a in alternatives if is_version_identifier(a, strict=False))\n"
+      "    return components(versioned[-1], strict=False)[0] if versioned else -1\n", "O15.3"),
+    V("b2 shape: guard clauses in best_match, serverless / empty merged into one test", "keep", _V, _BM_OLD, _BM_GUARD),
+    V("guard-clause best_match: master on >=", "break", _V, _BM_OLD, _BM_GUARD.replace("if major > _latest_major", "if major >= _latest_major"), "O15.3"),
+    V("guard-clause best_match: master for every non-version string", "break", _V, _BM_OLD, _BM_GUARD.replace("or not distribution_version:", "or distribution_version:"), "O15.3"),
+    V("guard-clause best_match: fallback tried at every step", "break", _V, _BM_OLD, _BM_GUARD.replace('version_type == "with_minor" and ', ""), "O15.1"),
+    V("b4 shape: membership tests on a frozenset of the alternatives", "keep", _V, _BM_OLD,
+      _BM_OLD.replace("in available_alternatives", "in alternatives").replace("(available_alternatives", "(alternatives")
+      .replace("        versions = VersionVariants(distribution_version)\n", "        alternatives = frozenset(available_alternatives)\n        versions = VersionVariants(distribution_version)\n")),
+    V("variants loop behind a generator helper + next()", "keep", _V, _BM_OLD,
+      _BM_OLD.replace('        for version, version_type in versions.all_versions:\n            if version in available_alternatives:\n                return version\n'
+                      '            # match nearest prior minor\n            if version_type == "with_minor" and (latest_minor := latest_bounded_minor(available_alternatives, versions)) is not None:\n'
+                      '                return f"{versions.major}.{latest_minor}"\n',
+                      '        found = next((c for c in _candidates(available_alternatives, versions) if c is not None), None)\n        if found is not None:\n            return found\n')
+      + '\n\ndef _candidates(alternatives, variants):\n    for variant, kind in variants.all_versions:\n        yield variant if variant in alternatives else None\n'
+        '        if kind == "with_minor":\n            nearest = latest_bounded_minor(alternatives, variants)\n            yield f"{variants.major}.{nearest}" if nearest is not None else None\n'),
+    V("eligibility in an extracted helper, search as comprehension + max(default=None)", "keep", _V, _LB_OLD, _LB_HELPER),
+    V("extracted eligibility helper tests the minor by truthiness", "break", _V, _LB_OLD, _LB_HELPER.replace("or minor is None:", "or not minor:"), "O15."),
+    V("extracted eligibility helper accepts lower majors", "break", _V, _LB_OLD, _LB_HELPER.replace("major == target_version.major", "major <= target_version.major"), "O15.3"),
+    V("comprehension search returns the FIRST eligible minor", "break", _V, _LB_OLD, _LB_HELPER.replace("return max(eligible_minors, default=None)", "return eligible_minors[0] if eligible_minors else None"), "O15.3"),
+    V("all_versions: suffix variant inserted in front under a guard", "keep", _V, _AV_OLD,
+      '        versions = [(self.with_patch, "with_patch"), (self.with_minor, "with_minor"), (self.with_major, "with_major")]\n        if self.suffix:\n'
+      '            versions.insert(0, (self.with_suffix, "with_suffix"))\n'),
+    V("all_versions: suffix variant appended LAST under a guard", "break", _V, _AV_OLD,
+      '        versions = [(self.with_patch, "with_patch"), (self.with_minor, "with_minor"), (self.with_major, "with_major")]\n        if self.suffix:\n'
+      '            versions.append((self.with_suffix, "with_suffix"))\n', "O15.1"),
+    V("with_minor built without the dot", "break", _V, 'self.with_minor = f"{int(self.major)}.{int(self.minor)}"', 'self.with_minor = f"{int(self.major)}{int(self.minor)}"', "O15.1"),
+    V("remote ref clean-up as a comprehension with split('/', 1)", "keep", _G, _CRB_OLD,
+      '    return [ref.split("/", 1)[1].strip() for ref in refs if "/" in ref and not ref.endswith("/HEAD")]\n'),
+    V("comprehension clean-up splits on the LAST slash", "break", _G, _CRB_OLD,
+      '    return [ref.rsplit("/", 1)[1].strip() for ref in refs if "/" in ref and not ref.endswith("/HEAD")]\n', "O15.4"),
+    [V("b3 / b4 shape: tag prefix as a module constant, tags in a set, search as next()", "keep", _P, _FT_OLD,
+       '        tags = set(git.tags(self.repo_dir))\n        return next((f"{TAG_PREFIX}{v}" for v in versions.variants_of(distribution_version) if f"{TAG_PREFIX}{v}" in tags), None)\n'),
+     V("", "keep", _P, "\n\nclass RallyRepository:", '\n\nTAG_PREFIX = "v"\n\n\nclass RallyRepository:')],
+    V("next()-shaped tag search without the v prefix", "break", _P, _FT_OLD,
+      '        tags = set(git.tags(self.repo_dir))\n        return next((v for v in versions.variants_of(distribution_version) if v in tags), None)\n', "O15.4"),
+    V("tag search prefers the LEAST specific tag", "break", _P, "        for version in versions.variants_of(distribution_version):", "        for version in reversed(list(versions.variants_of(distribution_version))):", "O15.4"),
+    V("current branch held in a local before the comparison", "keep", _P, "                if git.current_branch(self.repo_dir) != branch:",
+      "                current = git.current_branch(self.repo_dir)\n                if current != branch:"),
+    V("local holding the current branch compared by prefix", "break", _P, "                if git.current_branch(self.repo_dir) != branch:",
+      "                current = git.current_branch(self.repo_dir)\n                if not current.startswith(branch):", "O15.4"),
+    [V("b1 shape: remote checkout + rebase in a helper method", "keep", _P, _UP_OLD, "                    self._checkout_and_rebase(branch, distribution_version)\n                    return\n"),
+     V("", "keep", _P, "    def _find_matching_tag(self, distribution_version):\n", _UP_HELPER)],
+    [V("helper method checks out inside the rebase try", "break", _P, _UP_OLD, "                    self._checkout_and_rebase(branch, distribution_version)\n                    return\n", "O15.4"),
+     V("", "break", _P, "    def _find_matching_tag(self, distribution_version):\n",
+       _UP_HELPER.replace("        git.checkout(self.repo_dir, branch=ref)\n", "").replace("        try:\n", "        try:\n            git.checkout(self.repo_dir, branch=ref)\n"))],
+    [V("helper method is handed the version instead of the matched branch", "break", _P, _UP_OLD, "                    self._checkout_and_rebase(distribution_version, distribution_version)\n                    return\n", "O15.4"),
+     V("", "break", _P, "    def _find_matching_tag(self, distribution_version):\n", _UP_HELPER)],
+    [V("call of the checkout helper wrapped in a handler that only logs", "break", _P, _UP_OLD,
+       "                    try:\n                        self._checkout_and_rebase(branch, distribution_version)\n                    except exceptions.SupplyError:\n"
+       "                        self.logger.exception(\"Could not check out [%s]\", branch)\n                    return\n", "O15.4"),
+     V("", "break", _P, "    def _find_matching_tag(self, distribution_version):\n", _UP_HELPER)],
+    V("_latest_major: EAFP (try components / except InvalidSyntax: continue)", "keep", _V, _LM_OLD,
+      "def _latest_major(alternatives):\n    max_major = -1\n    for a in alternatives:\n        try:\n            major = components(a, strict=False)[0]\n"
+      "        except exceptions.InvalidSyntax:\n            continue\n        max_major = max(major, max_major)\n    return max_major\n"),
+    V("EAFP _latest_major parses strictly (M and M.m branches are skipped)", "break", _V, _LM_OLD,
+      "def _latest_major(alternatives):\n    max_major = -1\n    for a in alternatives:\n        try:\n            major = components(a)[0]\n"
+      "        except exceptions.InvalidSyntax:\n            continue\n        max_major = max(major, max_major)\n    return max_major\n", "O15.3"),
+    V("patch / suffix tested by truthiness (8.3.0 counts as the minor branch 8.3)", "break", _V, "            if patch is not None or suffix is not None:", "            if patch or suffix:", "O15.3"),
+    [V("local / tag checkout + revision in one helper method", "keep", _P, _LOCAL_OLD,
+       "                if git.current_branch(self.repo_dir) != branch:\n                    self._switch_to(branch, distribution_version)\n"),
+     V("", "keep", _P, _TAG_OLD, "                    self._switch_to(tag, distribution_version)\n"),
+     V("", "keep", _P, "    def _find_matching_tag(self, distribution_version):\n", _SWITCH)],
+    [V("switch helper records the revision BEFORE the checkout", "break", _P, _LOCAL_OLD,
+       "                if git.current_branch(self.repo_dir) != branch:\n                    self._switch_to(branch, distribution_version)\n", "O15.4"),
+     V("", "break", _P, _TAG_OLD, "                    self._switch_to(tag, distribution_version)\n"),
+     V("", "break", _P, "    def _find_matching_tag(self, distribution_version):\n",
+       _SWITCH.replace("        git.checkout(self.repo_dir, branch=ref)\n        self.revision = git.head_revision(self.repo_dir)\n",
+                       "        self.revision = git.head_revision(self.repo_dir)\n        git.checkout(self.repo_dir, branch=ref)\n"))],
+    [V("switch helper compared by suffix at its call site", "break", _P, _LOCAL_OLD,
+       "                if not git.current_branch(self.repo_dir).endswith(branch):\n                    self._switch_to(branch, distribution_version)\n", "O15.4"),
+     V("", "break", _P, _TAG_OLD, "                    self._switch_to(tag, distribution_version)\n"),
+     V("", "break", _P, "    def _find_matching_tag(self, distribution_version):\n", _SWITCH)],
+    V("tag checkout does not record the revision", "break", _P, _TAG_OLD, _TAG_OLD.replace("                    self.revision = git.head_revision(self.repo_dir)\n", ""), "O15.4"),
+    V("local match and tag bound in the tests (walrus)", "keep", _P,
+      "            branch = versions.best_match(git.branches(self.repo_dir, remote=False), distribution_version)\n            if branch:\n",
+      "            if branch := versions.best_match(git.branches(self.repo_dir, remote=False), distribution_version):\n"),
+    V("remote flag attribute renamed consistently", "keep", _P, "self.remote", "self.has_remote", count=4),
+    V("remote search not guarded by the remote flag", "break", _P, "            if self.remote:\n                branch = versions.best_match(", "            if not self.offline:\n                branch = versions.best_match(", "O15.4"),
     # preserving
     V("strictly smaller minors only", "keep", _V, "minor is not None and minor <= target_version.minor:", "minor is not None and minor < target_version.minor:"),
     V("nearest = max", "keep", _V, "    return min(eligible_minors, key=lambda x: abs(x - target_version.minor))", "    return max(eligible_minors)"),
